@@ -3949,20 +3949,19 @@ Proof.
               (seq (length L) (length R1) ++ (length L + length R1 + length R2) :: seq (length L + length R1) (length R2))
               t [D] (L ++ R1 ++ R2 ++ [F])
               (map (fun j0 => (0 :: par) ++ [j0]) (seq (S i) (length R1 + S (length R2))))
-              (fun z => tk2 (tk1 z)) (tk2 (tk1 (0 :: par ++ [j]))) HP) as [rest' Hgo].
+              (fun z => tk2 (tk1 z)) (tk2 (0 :: par ++ [length L + length R1])) HP) as [rest' Hgo].
   - replace (L ++ R1 ++ R2 ++ [F]) with (del_nth (length L + length R1) (L ++ R1 ++ F :: R2) ++ [F])
       by (rewrite del_nth_mid2, <- !app_assoc; reflexivity).
     eapply NoDup_names_move; [apply nth_error_mid2|exact Hnd1].
   - exact Hok.
   - rewrite !map_map. rewrite seq_app. cbn [seq]. rewrite !map_app. cbn [map]. f_equal; [|f_equal].
-    + rewrite <- (map_map (fun x => x) (fun e => 0 :: par ++ [e])), map_id.
-      rewrite <- seq_shift, !map_map. apply map_ext_in. intros m Hm. apply in_seq in Hm.
-      change ((0 :: par) ++ [S i + m]) with (0 :: par ++ [S i + m]). unfold tk1, tk2.
-      rewrite (track_sibling0 par i [1] (S i + m)) by lia.
-      assert (E1 : adj_idx i (S i + m) = i + m).
-      { unfold adj_idx. replace (Nat.ltb i (S i + m)) with true by (symmetry; apply Nat.ltb_lt; lia). lia. }
-      rewrite E1. rewrite track_sibling0 by (unfold i; lia). unfold adj_idx, i.
-      replace (Nat.ltb (length L + length R1) (length L + m)) with false by (symmetry; apply Nat.ltb_ge; lia).
+    + rewrite <- seq_shift, !map_map. apply map_ext_in. intros m Hm. apply in_seq in Hm.
+      change ((0 :: par) ++ [S m]) with (0 :: par ++ [S m]). unfold tk1, tk2.
+      rewrite (track_sibling0 par i [1] (S m)) by lia.
+      assert (E1 : adj_idx i (S m) = m).
+      { unfold adj_idx. replace (Nat.ltb i (S m)) with true by (symmetry; apply Nat.ltb_lt; lia). reflexivity. }
+      rewrite E1. rewrite track_sibling0 by (unfold i in *; lia). unfold adj_idx.
+      replace (Nat.ltb (length L + length R1) m) with false by (symmetry; apply Nat.ltb_ge; unfold i in *; lia).
       reflexivity.
     + change ((0 :: par) ++ [S i + length R1]) with (0 :: par ++ [S i + length R1]). unfold tk1, tk2.
       rewrite (track_sibling0 par i [1] (S i + length R1)) by lia.
@@ -3970,23 +3969,1137 @@ Proof.
       { unfold adj_idx, i. replace (Nat.ltb (length L) (S (length L) + length R1)) with true
           by (symmetry; apply Nat.ltb_lt; lia). lia. }
       rewrite E1, track_self. cbn [app]. f_equal. f_equal. f_equal. lens. lia.
-    + rewrite <- seq_shift, !map_map.
-      replace (seq (length L + length R1) (length R2)) with (map (fun m => length L + length R1 + m) (seq 0 (length R2))).
-      2: { clear. generalize (length L + length R1). intros b. induction (length R2) as [|n IHn] using nat_ind; [reflexivity|].
-           rewrite seq_S, map_app, IHn. cbn. rewrite seq_S. reflexivity. }
-      replace (seq (S i + length R1) (length R2)) with (map (fun m => S i + length R1 + m) (seq 0 (length R2))).
-      2: { clear. generalize (S i + length R1). intros b. induction (length R2) as [|n IHn] using nat_ind; [reflexivity|].
-           rewrite seq_S, map_app, IHn. cbn. rewrite seq_S. reflexivity. }
-      rewrite !map_map. apply map_ext_in. intros m Hm.
-      change ((0 :: par) ++ [S (S i + length R1 + m)]) with (0 :: par ++ [S (S i + length R1 + m)]). unfold tk1, tk2.
-      rewrite (track_sibling0 par i [1]) by lia.
-      assert (E1 : adj_idx i (S (S i + length R1 + m)) = S (i + length R1 + m)).
-      { unfold adj_idx. replace (Nat.ltb i (S (S i + length R1 + m))) with true by (symmetry; apply Nat.ltb_lt; lia). lia. }
-      rewrite E1. rewrite track_sibling0 by (unfold i; lia). unfold adj_idx, i.
-      replace (Nat.ltb (length L + length R1) (S (length L + length R1 + m))) with true by (symmetry; apply Nat.ltb_lt; lia).
+    + replace (seq (S (S i + length R1)) (length R2))
+        with (map (fun m => S (S m)) (seq (length L + length R1) (length R2)))
+        by (rewrite <- (map_map S S), !seq_shift; reflexivity).
+      rewrite !map_map. apply map_ext_in. intros m Hm. apply in_seq in Hm.
+      change ((0 :: par) ++ [S (S m)]) with (0 :: par ++ [S (S m)]). unfold tk1, tk2.
+      rewrite (track_sibling0 par i [1] (S (S m))) by (unfold i; lia).
+      assert (E1 : adj_idx i (S (S m)) = S m).
+      { unfold adj_idx, i. replace (Nat.ltb (length L) (S (S m))) with true by (symmetry; apply Nat.ltb_lt; lia). reflexivity. }
+      rewrite E1. rewrite track_sibling0 by lia. unfold adj_idx.
+      replace (Nat.ltb (length L + length R1) (S m)) with true by (symmetry; apply Nat.ltb_lt; lia).
       reflexivity.
   - exists rest'. cbn [app length] in Hgo.
     change ((0 :: par) ++ [j]) with (0 :: par ++ [j]).
     match goal with |- ?lhs = _ => match type of Hgo with ?lhs' = _ => replace lhs with lhs' by reflexivity end end.
-    rewrite Hgo, Hrun. cbn [app]. reflexivity.
+    rewrite Hgo, Hrun. cbn [app]. rewrite <- Hta. reflexivity.
+Qed.
+
+(* the replacing node F is a LEFT sibling of the replaced node D (children L1 ++ F :: L2 ++ D :: R):
+   F takes D's place, between L2 and R *)
+Theorem replace_left_sibling c t par L1 F L2 D R :
+  plain_replace c -> (exists P, tpath t par = Some P) ->
+  fkids par (tkids t) = Some (L1 ++ F :: L2 ++ D :: R) -> NoDup (map tname (L1 ++ F :: L2 ++ D :: R)) ->
+  exists rest,
+    rp_core c [t] (0 :: par ++ [length L1]) (0 :: par ++ [length L1 + S (length L2)])
+    = (t_setk par (L1 ++ L2 ++ F :: R) t :: rest, None).
+Proof.
+  intros Hpr HP Hks Hnd. set (i := length L1 + S (length L2)). set (j := length L1) in |- * at 1.
+  assert (Hij : j <> i) by (unfold i, j; lia).
+  rewrite (rp_core_unfold c t (par ++ [j]) par i _ Hpr (sibling_refs_neq par i j (not_eq_sym Hij)) Hks).
+  assert (Hlen : length (L1 ++ F :: L2 ++ D :: R) - i = S (length R)) by (unfold i; lens; lia).
+  rewrite Hlen. cbn [seq map rp_loop].
+  assert (Ht : t = t_setk par (L1 ++ F :: L2 ++ D :: R) t) by (symmetry; apply t_setk_id; exact Hks).
+  set (nr := nroots c).
+  assert (Hnth : nth_error (L1 ++ F :: L2 ++ D :: R) i = Some D).
+  { unfold i. change (L1 ++ F :: L2 ++ D :: R) with (L1 ++ (F :: L2) ++ D :: R).
+    replace (length L1 + S (length L2)) with (length L1 + length (F :: L2)) by reflexivity. apply nth_error_mid2. }
+  assert (HgD : tget t (par ++ [i]) = Some D) by (unfold tget; eapply fget_snoc; [exact Hks|exact Hnth]).
+  pose proof (detach_in_tree nr t [] (par ++ [i]) D ltac:(destruct par; discriminate) HgD) as Hm1.
+  change ((0 :: par) ++ [i]) with (0 :: par ++ [i]).
+  match goal with |- context [move ?x1 ?x2 ?x3 None] =>
+    replace (move x1 x2 x3 None) with (MvOk ((t_remove (par ++ [i]) t :: []) ++ [D]) (track (0 :: par ++ [i]) [1]))
+      by (symmetry; exact Hm1) end.
+  cbn [app]. cbn beta iota.
+  assert (Hta : t_remove (par ++ [i]) t = t_setk par (L1 ++ F :: L2 ++ R) t).
+  { rewrite Ht at 1. unfold t_remove, t_setk. rewrite set_kids_set_kids, tkids_set_kids, fremove_fsetk_child.
+    unfold i. change (L1 ++ F :: L2 ++ D :: R) with (L1 ++ (F :: L2) ++ D :: R).
+    replace (length L1 + S (length L2)) with (length L1 + length (F :: L2)) by reflexivity.
+    rewrite del_nth_mid2. reflexivity. }
+  rewrite Hta.
+  rewrite (track_sibling0 par i [1] j (not_eq_sym Hij)), track_parent0.
+  assert (Hj' : adj_idx i j = length L1).
+  { unfold adj_idx, i, j. replace (Nat.ltb (length L1 + S (length L2)) (length L1)) with false
+      by (symmetry; apply Nat.ltb_ge; lia). reflexivity. }
+  rewrite Hj'.
+  assert (Hnd1 : NoDup (map tname (L1 ++ F :: L2 ++ R))).
+  { change (L1 ++ F :: L2 ++ D :: R) with (L1 ++ (F :: L2) ++ D :: R) in Hnd. rewrite app_assoc, map_app in Hnd.
+    cbn [map] in Hnd. apply NoDup_remove_1 in Hnd. rewrite <- map_app, <- app_assoc in Hnd. exact Hnd. }
+  pose proof (move_same_parent nr [] par t [D] (L1 ++ F :: L2 ++ R) (length L1) F HP Hnd1 (nth_error_mid L1 (L2 ++ R) F)) as Hm2.
+  cbn [app length] in Hm2. rewrite del_nth_mid in Hm2.
+  match goal with |- context [move ?x1 ?x2 ?x3 ?x4] =>
+    replace (move x1 x2 x3 x4) with
+      (MvOk [t_setk par ((L1 ++ L2 ++ R) ++ [F]) t; D]
+            (track (0 :: par ++ [length L1]) ((0 :: par) ++ [length (L1 ++ L2 ++ R)])))
+      by (symmetry; exact Hm2) end.
+  cbn beta iota.
+  set (tk1 := track (0 :: par ++ [i]) [1]).
+  set (tk2 := track (0 :: par ++ [length L1]) ((0 :: par) ++ [length (L1 ++ L2 ++ R)])).
+  assert (Hpar2 : tk2 (0 :: par) = 0 :: par) by apply track_parent0.
+  rewrite Hpar2.
+  destruct (mte_seq (L1 ++ L2) R [F]) as [Hrun Hok].
+  replace ((L1 ++ L2 ++ R) ++ [F]) with ((L1 ++ L2) ++ R ++ [F]) by (rewrite <- !app_assoc; reflexivity).
+  destruct (rp_tail nr [] par ltac:(unfold nr, nroots; rewrite (pr_two _ Hpr); cbn; lia)
+              (seq (length (L1 ++ L2)) (length R)) t [D] ((L1 ++ L2) ++ R ++ [F])
+              (map (fun j0 => (0 :: par) ++ [j0]) (seq (S i) (length R)))
+              (fun z => tk2 (tk1 z)) (tk2 (0 :: par ++ [length L1])) HP) as [rest' Hgo].
+  - replace ((L1 ++ L2) ++ R ++ [F]) with (del_nth (length L1) (L1 ++ F :: L2 ++ R) ++ [F])
+      by (rewrite del_nth_mid, <- !app_assoc; reflexivity).
+    eapply NoDup_names_move; [apply nth_error_mid|exact Hnd1].
+  - exact Hok.
+  - replace (seq (S i) (length R)) with (map (fun m => S (S m)) (seq (length (L1 ++ L2)) (length R))).
+    2: { rewrite <- (map_map S S), !seq_shift. unfold i. rewrite app_length.
+         replace (S (S (length L1 + length L2))) with (S (length L1 + S (length L2))) by lia. reflexivity. }
+    rewrite !map_map. apply map_ext_in. intros m Hm. apply in_seq in Hm. rewrite app_length in Hm.
+    change ((0 :: par) ++ [S (S m)]) with (0 :: par ++ [S (S m)]). unfold tk1, tk2.
+    rewrite (track_sibling0 par i [1] (S (S m))) by (unfold i; lia).
+    assert (E1 : adj_idx i (S (S m)) = S m).
+    { unfold adj_idx, i. replace (Nat.ltb (length L1 + S (length L2)) (S (S m))) with true
+        by (symmetry; apply Nat.ltb_lt; lia). reflexivity. }
+    rewrite E1. rewrite track_sibling0 by lia. unfold adj_idx.
+    replace (Nat.ltb (length L1) (S m)) with true by (symmetry; apply Nat.ltb_lt; lia). reflexivity.
+  - exists rest'. cbn [app length] in Hgo. rewrite Hgo, Hrun. rewrite <- !app_assoc. reflexivity.
+Qed.
+
+(* -- copy_and_replace_nodes_from_tree_to_tree ------------------------------------------------------- *)
+
+Lemma track_sibling_k ka par e nx e' : e <> e' ->
+  track (ka :: par ++ [e]) nx (ka :: par ++ [e']) = ka :: par ++ [adj_idx e e'].
+Proof.
+  intros Hne. change (ka :: par ++ [e]) with (ka :: (par ++ [e])). change (ka :: par ++ [e']) with (ka :: (par ++ [e'])).
+  unfold track. rewrite is_prefix_cons, Nat.eqb_refl. cbn [andb]. rewrite is_prefix_sibling_false by exact Hne.
+  unfold adj'. rewrite adj_cons_same by (destruct par; discriminate).
+  pose proof (adj'_sibling par e e' Hne) as E. unfold adj' in E.
+  destruct (adj (par ++ [e]) (par ++ [e'])); cbn [option_map]; rewrite E; reflexivity.
+Qed.
+
+Lemma track_parent_k ka par e nx : track (ka :: par ++ [e]) nx (ka :: par) = ka :: par.
+Proof.
+  change (ka :: par ++ [e]) with (ka :: (par ++ [e])).
+  unfold track. rewrite is_prefix_cons, Nat.eqb_refl. cbn [andb].
+  rewrite (is_prefix_child_false par par e (or_intror eq_refl)).
+  unfold adj'. rewrite adj_cons_same by (destruct par; discriminate).
+  pose proof (adj'_child_removed par par e (or_intror eq_refl)) as E. unfold adj' in E.
+  destruct (adj (par ++ [e]) par); cbn [option_map]; [rewrite E|]; reflexivity.
+Qed.
+
+Lemma track_other_piece ka kb x nx z : ka <> kb -> x <> [] -> track (ka :: x) nx (kb :: z) = kb :: z.
+Proof.
+  intros Hk Hx. unfold track. rewrite is_prefix_cons.
+  replace (Nat.eqb ka kb) with false by (symmetry; apply Nat.eqb_neq; exact Hk). cbn [andb].
+  unfold adj'. cbn [adj]. destruct x as [|x0 x]; [congruence|].
+  replace (Nat.eqb kb ka) with false by (symmetry; apply Nat.eqb_neq; congruence). reflexivity.
+Qed.
+
+Record tt_replace (c : cfg) : Prop := {
+  tr_copy : c_copy c = true;
+  tr_two : c_two c = true;
+  tr_dc : f_dc (c_fl c) = false }.
+
+(* DESIGN.md "C08_replace_position" for copy_and_replace_nodes_from_tree_to_tree: the copy of the source
+   node takes the place of D among the children L ++ D :: R of D's parent; the source tree is piece 0 *)
+Theorem replace_tt c s dt p x par L D R :
+  tt_replace c -> p <> [] -> tget s p = Some x ->
+  (exists P, tpath dt par = Some P) ->
+  fkids par (tkids dt) = Some (L ++ D :: R) -> NoDup (map tname (L ++ D :: R)) ->
+  (forall k, In k (L ++ R) -> tname k <> tname x) ->
+  exists rest,
+    rp_core c [s; dt] (0 :: p) (1 :: par ++ [length L])
+    = (s :: t_setk par (L ++ retag x :: R) dt :: rest, None).
+Proof.
+  intros [Hc Htwo Hdc] Hp Hx HP Hks Hnd Hfresh. set (i := length L). set (y := retag x).
+  unfold rp_core. cbn [ref_eqb list_eqb Nat.eqb andb]. rewrite Hc, Hdc. unfold copy_node.
+  cbn [nth_error length]. change ([s; dt] ++ [retag s]) with [s; dt; retag s]. set (cs := retag s).
+  cbn beta iota.
+  assert (Hpr : parent_ref (1 :: par ++ [i]) = Some (1 :: par)).
+  { unfold parent_ref. destruct (par ++ [i]) eqn:E; [destruct par; discriminate|]. rewrite <- E.
+    rewrite removelast_snoc_cons. reflexivity. }
+  rewrite Hpr.
+  replace (fkids (1 :: par) [s; dt; cs]) with (Some (L ++ D :: R)) by (symmetry; exact Hks).
+  rewrite last_snoc_cons.
+  assert (Hlen : length (L ++ D :: R) - i = S (length R)) by (unfold i; lens; lia).
+  rewrite Hlen. cbn [seq map rp_loop].
+  set (nr := nroots c).
+  assert (Ht : dt = t_setk par (L ++ D :: R) dt) by (symmetry; apply t_setk_id; exact Hks).
+  assert (HgD : tget dt (par ++ [i]) = Some D).
+  { unfold tget. eapply fget_snoc; [exact Hks|]. unfold i. apply nth_error_mid. }
+  pose proof (detach_in_piece nr [s] dt [cs] (par ++ [i]) D ltac:(destruct par; discriminate) HgD) as Hm1.
+  cbn [app length] in Hm1. change ((1 :: par) ++ [i]) with (1 :: par ++ [i]).
+  match goal with |- context [move ?x1 ?x2 ?x3 None] =>
+    replace (move x1 x2 x3 None) with
+      (MvOk [s; t_remove (par ++ [i]) dt; cs; D] (track (1 :: par ++ [i]) [3])) by (symmetry; exact Hm1) end.
+  cbn beta iota.
+  assert (Hta : t_remove (par ++ [i]) dt = t_setk par (L ++ R) dt).
+  { rewrite Ht at 1. unfold t_remove, t_setk. rewrite set_kids_set_kids, tkids_set_kids, fremove_fsetk_child.
+    unfold i. rewrite del_nth_mid. reflexivity. }
+  rewrite Hta. set (ta := t_setk par (L ++ R) dt).
+  change (1 :: par ++ [i]) with (1 :: (par ++ [i])).
+  rewrite (track_other_piece 1 2 (par ++ [i]) [3] p) by (try lia; destruct par; discriminate).
+  change (1 :: (par ++ [i])) with (1 :: par ++ [i]). rewrite track_parent_k.
+  (* the copy goes under D's parent *)
+  assert (Hmv : exists len, move nr [s; ta; cs; D] (2 :: p) (Some (1 :: par))
+                 = MvOk [s; t_setk par ((L ++ R) ++ [y]) dt; t_remove p cs; D] (track (2 :: p) ((1 :: par) ++ [len]))).
+  { unfold move.
+    assert (Hg : fget (2 :: p) [s; ta; cs; D] = Some y).
+    { cbn [fget nth_error]. destruct p as [|j p]; [congruence|]. unfold cs. rewrite tkids_retag, fget_retag.
+      unfold tget in Hx. rewrite Hx. reflexivity. }
+    rewrite Hg. cbn [is_prefix Nat.eqb andb].
+    assert (Hk1 : fkids (1 :: par) [s; ta; cs; D] = Some (L ++ R)).
+    { cbn [fkids nth_error]. unfold ta, t_setk. rewrite tkids_set_kids. destruct HP as [P HP].
+      eapply fkids_fsetk_self. exact HP. }
+    rewrite Hk1.
+    replace (opt_eqb ref_eqb (parent_ref (2 :: p)) (Some (1 :: par))) with false.
+    2: { symmetry. destruct p as [|j [|j' p]]; [congruence|reflexivity|reflexivity]. }
+    unfold y at 1. rewrite tname_retag. rewrite dup_child_false by exact Hfresh.
+    replace (protected nr (2 :: p)) with false by (destruct p; [congruence|reflexivity]).
+    assert (Hrm : fremove (2 :: p) [s; ta; cs; D] = [s; ta; t_remove p cs; D])
+      by (destruct p; [congruence|reflexivity]).
+    rewrite Hrm.
+    assert (Hadj : adj' (2 :: p) (1 :: par) = 1 :: par) by (unfold adj'; destruct p; [congruence|reflexivity]).
+    rewrite Hadj.
+    assert (Hk2 : fkids (1 :: par) [s; ta; t_remove p cs; D] = Some (L ++ R)) by exact Hk1.
+    rewrite Hk2. exists (length (L ++ R)). f_equal. cbn [fappend upd_nth]. f_equal. f_equal.
+    unfold ta, t_setk. rewrite set_kids_set_kids, tkids_set_kids, fappend_fsetk_self. reflexivity. }
+  destruct Hmv as [len Hmv].
+  match goal with |- context [move ?x1 ?x2 ?x3 ?x4] =>
+    replace (move x1 x2 x3 x4) with
+      (MvOk [s; t_setk par ((L ++ R) ++ [y]) dt; t_remove p cs; D] (track (2 :: p) ((1 :: par) ++ [len])))
+      by (symmetry; exact Hmv) end.
+  cbn beta iota.
+  set (tk1 := track (1 :: par ++ [i]) [3]). set (tk2 := track (2 :: p) ((1 :: par) ++ [len])).
+  assert (Htk2 : forall z, tk2 (1 :: z) = 1 :: z) by (intros z; apply track_other_piece; [lia|exact Hp]).
+  rewrite Htk2.
+  destruct (mte_seq L R [y]) as [Hrun Hok].
+  replace ((L ++ R) ++ [y]) with (L ++ R ++ [y]) by (rewrite <- app_assoc; reflexivity).
+  destruct (rp_tail nr [s] par ltac:(unfold nr, nroots; rewrite Htwo; cbn; lia)
+              (seq (length L) (length R)) dt [t_remove p cs; D] (L ++ R ++ [y])
+              (map (fun j0 => (1 :: par) ++ [j0]) (seq (S i) (length R)))
+              (fun z => tk2 (tk1 z)) (tk2 (2 :: p)) HP) as [rest' Hgo].
+  - rewrite app_assoc, map_app. cbn [map]. apply NoDup_app_snoc.
+    + rewrite map_app in Hnd. cbn [map] in Hnd. apply NoDup_remove_1 in Hnd. rewrite <- map_app in Hnd. exact Hnd.
+    + unfold y. rewrite tname_retag. intros Hin. apply in_map_iff in Hin as [k [E Hk]]. apply (Hfresh k Hk). exact E.
+  - exact Hok.
+  - rewrite <- seq_shift, !map_map. apply map_ext_in. intros m Hm. apply in_seq in Hm.
+    change ((1 :: par) ++ [S m]) with (1 :: par ++ [S m]). unfold tk1.
+    rewrite (track_sibling_k 1 par i [3] (S m)) by lia.
+    assert (E1 : adj_idx i (S m) = m).
+    { unfold adj_idx. replace (Nat.ltb i (S m)) with true by (symmetry; apply Nat.ltb_lt; lia). reflexivity. }
+    rewrite E1. apply Htk2.
+  - exists rest'. cbn [app length] in Hgo.
+    match goal with |- ?lhs = _ => match type of Hgo with ?lhs' = _ => replace lhs with lhs' by reflexivity end end.
+    rewrite Hgo, Hrun. reflexivity.
+Qed.
+
+(* -- the table of a tree as a function of the children list of one node ----------------------------- *)
+
+Lemma frows_fsetk_ctx : forall par pre (f : forest) PQ,
+  wf_f f -> par <> [] -> fpath pre par f = Some PQ ->
+  exists A B, (forall ks, frows pre (fsetk par ks f) = A ++ frows PQ ks ++ B)
+              /\ (forall r c, In r (A ++ B) -> under (PQ ++ [c]) r = false).
+Proof.
+  induction par as [|i par IH]; intros pre f PQ Hwf Hp HP; [congruence|].
+  cbn [fpath] in HP. destruct (nth_error f i) as [t|] eqn:Et; [|discriminate].
+  apply nth_error_split_at in Et as [a [b [-> <-]]].
+  apply wf_f_mid in Hwf as [Ht [Hab Hne]].
+  destruct (fpath_ext _ _ _ _ HP) as [rest [HPe Hrl]]. rewrite <- app_assoc in HPe. cbn [app] in HPe.
+  assert (Hother : forall r c, In r (frows pre a ++ frows pre b) -> under (PQ ++ [c]) r = false).
+  { intros r c Hr. rewrite HPe, <- app_assoc. cbn [app]. apply in_app_or in Hr as [Hr|Hr].
+    - eapply frows_other_not_under; [|exact Hr]. intros u Hu. apply Hne. apply in_or_app. left; exact Hu.
+    - eapply frows_other_not_under; [|exact Hr]. intros u Hu. apply Hne. apply in_or_app. right; exact Hu. }
+  destruct par as [|j par].
+  - destruct rest as [|? ?]; [|cbn in Hrl; discriminate]. subst PQ. clear HP.
+    exists (frows pre a ++ [(pre ++ [tname t], ttag t, tattrs t)]), (frows pre b). split.
+    + intros ks. cbn [fsetk]. rewrite upd_nth_mid, frows_app, frows_cons, rows_from_eq, tname_set_kids, ttag_set_kids,
+        tattrs_set_kids, tkids_set_kids. cbn [fsetk]. rewrite <- !app_assoc. reflexivity.
+    + intros r c Hr. rewrite <- app_assoc in Hr. apply in_app_or in Hr as [Hr|Hr].
+      * apply Hother. apply in_or_app. left; exact Hr.
+      * destruct Hr as [<-|Hr]; [|apply Hother; apply in_or_app; right; exact Hr].
+        unfold under. cbn [rpath fst]. apply pfx_long. rewrite (app_length (pre ++ [tname t]) [c]). cbn [length]. lia.
+  - destruct (IH (pre ++ [tname t]) (tkids t) PQ (wf_t_kids _ Ht) ltac:(discriminate) HP) as [A' [B' [H1 H2]]].
+    exists (frows pre a ++ (pre ++ [tname t], ttag t, tattrs t) :: A'), (B' ++ frows pre b). split.
+    + intros ks. change (fsetk (length a :: j :: par) ks (a ++ t :: b))
+        with (upd_nth (length a) (fun t0 => set_kids t0 (fsetk (j :: par) ks (tkids t0))) (a ++ t :: b)).
+      rewrite upd_nth_mid, frows_app, frows_cons, rows_from_eq, tname_set_kids, ttag_set_kids,
+        tattrs_set_kids, tkids_set_kids. rewrite H1. rewrite <- ?app_assoc. cbn [app]. rewrite <- ?app_assoc. reflexivity.
+    + intros r c Hr. rewrite <- app_assoc in Hr. apply in_app_or in Hr as [Hr|Hr];
+        [apply Hother; apply in_or_app; left; exact Hr|].
+      destruct Hr as [<-|Hr].
+      * unfold under. cbn [rpath fst]. apply pfx_long. rewrite HPe, !app_length. cbn [length] in *. lia.
+      * apply in_app_or in Hr as [Hr|Hr]; [apply H2; apply in_or_app; left; exact Hr|].
+        apply in_app_or in Hr as [Hr|Hr]; [apply H2; apply in_or_app; right; exact Hr|].
+        apply Hother. apply in_or_app. right; exact Hr.
+Qed.
+
+Lemma rows_setk_ctx t par PQ :
+  wf_t t -> tpath t par = Some PQ ->
+  exists A B, (forall ks, rows (t_setk par ks t) = A ++ frows PQ ks ++ B)
+              /\ (forall r c, In r (A ++ B) -> under (PQ ++ [c]) r = false).
+Proof.
+  intros Hwf HP. destruct par as [|i par].
+  - unfold tpath in HP. cbn in HP. inversion HP; subst PQ.
+    exists [([tname t], ttag t, tattrs t)], []. split.
+    + intros ks. unfold t_setk. cbn [fsetk]. rewrite rows_eq, tname_set_kids, ttag_set_kids, tattrs_set_kids,
+        tkids_set_kids, app_nil_r. reflexivity.
+    + intros r c [<-|[]]. unfold under. cbn [rpath fst app pfx]. rewrite str_eqb_refl. reflexivity.
+  - destruct (frows_fsetk_ctx (i :: par) [tname t] (tkids t) PQ (wf_t_kids _ Hwf) ltac:(discriminate) HP) as [A [B [H1 H2]]].
+    exists (([tname t], ttag t, tattrs t) :: A), B. split.
+    + intros ks. unfold t_setk. rewrite rows_eq, tname_set_kids, ttag_set_kids, tattrs_set_kids, tkids_set_kids, H1.
+      reflexivity.
+    + intros r c [<-|Hr]; [|apply H2; exact Hr].
+      unfold under. cbn [rpath fst]. apply pfx_long. destruct (tpath_ext _ _ _ HP) as [rest [-> Hl]].
+      cbn [length app] in *. rewrite app_length. cbn. lia.
+Qed.
+
+Lemma before_block_app X Y P : (forall r, In r X -> under P r = false) -> before_block (X ++ Y) P = X ++ before_block Y P.
+Proof.
+  induction X as [|x X IH]; intros H; [reflexivity|]. cbn [app before_block]. rewrite (H x (or_introl eq_refl)).
+  rewrite IH by (intros r Hr; apply H; right; exact Hr). reflexivity.
+Qed.
+
+Lemma after_block_app X Y P : (forall r, In r X -> under P r = false) -> after_block (X ++ Y) P = after_block Y P.
+Proof.
+  induction X as [|x X IH]; intros H; [reflexivity|]. cbn [app after_block]. rewrite (H x (or_introl eq_refl)).
+  apply IH. intros r Hr. apply H. right; exact Hr.
+Qed.
+
+Lemma frows_names_not_under PQ ks n r :
+  (forall k, In k ks -> tname k <> n) -> In r (frows PQ ks) -> under (PQ ++ [n]) r = false.
+Proof. intros H Hr. eapply frows_other_not_under; eassumption. Qed.
+
+(* splitting the table around the block of one child D of the node at PQ *)
+Lemma blocks_around_child A B PQ L D R :
+  (forall r c, In r (A ++ B) -> under (PQ ++ [c]) r = false) -> NoDup (map tname (L ++ D :: R)) ->
+  let tb := A ++ frows PQ (L ++ D :: R) ++ B in
+  before_block tb (PQ ++ [tname D]) = A ++ frows PQ L /\ after_block tb (PQ ++ [tname D]) = frows PQ R ++ B.
+Proof.
+  intros Hctx Hnd tb. unfold tb. set (PD := PQ ++ [tname D]).
+  assert (HL : forall k, In k L -> tname k <> tname D).
+  { intros k Hk E. rewrite map_app in Hnd. cbn [map] in Hnd. apply NoDup_remove_2 in Hnd. apply Hnd.
+    apply in_or_app. left. rewrite <- E. apply in_map. exact Hk. }
+  assert (HR : forall k, In k R -> tname k <> tname D).
+  { intros k Hk E. rewrite map_app in Hnd. cbn [map] in Hnd. apply NoDup_remove_2 in Hnd. apply Hnd.
+    apply in_or_app. right. rewrite <- E. apply in_map. exact Hk. }
+  assert (HA : forall r, In r (A ++ frows PQ L) -> under PD r = false).
+  { intros r Hr. apply in_app_or in Hr as [Hr|Hr]; [apply Hctx; apply in_or_app; left; exact Hr|].
+    eapply frows_names_not_under; [exact HL|exact Hr]. }
+  assert (HB : forall r, In r (frows PQ R ++ B) -> under PD r = false).
+  { intros r Hr. apply in_app_or in Hr as [Hr|Hr]; [eapply frows_names_not_under; [exact HR|exact Hr]|].
+    apply Hctx. apply in_or_app. right; exact Hr. }
+  rewrite frows_app, frows_cons.
+  replace (A ++ (frows PQ L ++ rows_from PQ D ++ frows PQ R) ++ B)
+    with ((A ++ frows PQ L) ++ rows_from PQ D ++ (frows PQ R ++ B)) by (rewrite <- !app_assoc; reflexivity).
+  rewrite before_block_app, after_block_app by exact HA. rewrite rows_from_eq. fold PD.
+  assert (Hu : under PD (PD, ttag D, tattrs D) = true) by (unfold under; cbn [rpath fst]; apply pfx_refl).
+  cbn [app before_block after_block]. rewrite Hu. split; [rewrite app_nil_r; reflexivity|].
+  change (fun x : row => negb (under PD x)) with (fun x : row => negb (under PD x)).
+  rewrite filter_app. rewrite (filter_none _ (frows PD (tkids D))).
+  - cbn [app]. apply filter_all. intros r Hr. rewrite (HB r Hr). reflexivity.
+  - intros r Hr. apply frows_under in Hr as [u [rs [_ Hrs]]]. unfold under. rewrite Hrs, pfx_app. reflexivity.
+Qed.
+
+Lemma existsb_names_app (a b : list tree) n :
+  existsb (fun k => str_eqb (tname k) n) (a ++ b)
+  = existsb (fun k => str_eqb (tname k) n) a || existsb (fun k => str_eqb (tname k) n) b.
+Proof. apply existsb_app. Qed.
+
+(* DESIGN.md "C08_replace_position", copy_and_replace_nodes_from_tree_to_tree *)
+Theorem C08_replace_position_tt_stmt c fl s dt p x par L D R PX PQ :
+  tt_replace c -> f_dc fl = false -> wf_t s -> wf_t dt ->
+  p <> [] -> tget s p = Some x -> tpath s p = Some PX -> tpath dt par = Some PQ ->
+  fkids par (tkids dt) = Some (L ++ D :: R) -> (forall k, In k (L ++ R) -> tname k <> tname x) ->
+  let PD := PQ ++ [tname D] in
+  let t2 := t_setk par (L ++ retag x :: R) dt in
+  (exists rest, rp_core c [s; dt] (0 :: p) (1 :: par ++ [length L]) = (s :: t2 :: rest, None))
+  /\ rows t2 = before_block (rows dt) PD ++ rows_from PQ (retag x) ++ after_block (rows dt) PD
+  /\ edit_rp true false fl (rows s) (rows dt) PX (Some PD) = PNext (rows s) (rows t2).
+Proof.
+  intros Htt Hdc Hwfs Hwfd Hp Hx HPX HPQ Hks Hfresh PD t2.
+  assert (Hnd : NoDup (map tname (L ++ D :: R))) by (apply (wf_fkids par (tkids dt) _ (wf_t_kids _ Hwfd) Hks)).
+  assert (Hrows : rows t2 = before_block (rows dt) PD ++ rows_from PQ (retag x) ++ after_block (rows dt) PD).
+  { destruct (rows_setk_ctx dt par PQ Hwfd HPQ) as [A [B [H1 H2]]].
+    destruct (blocks_around_child A B PQ L D R H2 Hnd) as [Hb Ha]. cbn zeta in Hb, Ha.
+    rewrite <- (H1 (L ++ D :: R)), (t_setk_id par dt _ Hks) in Hb, Ha. fold PD in Hb, Ha.
+    rewrite Hb, Ha. unfold t2. rewrite H1, frows_app, frows_cons. rewrite <- !app_assoc. reflexivity. }
+  split; [|split; [exact Hrows|]].
+  - apply (replace_tt c s dt p x par L D R); try assumption. exists PQ. exact HPQ.
+  - rewrite Hrows.
+    destruct (t_sub_rows s p x PX Hwfs Hp Hx HPX) as [P0 [HP0 Hsub]].
+    assert (Hk : length PX = S (length P0)) by (rewrite HP0, app_length; cbn; lia).
+    assert (Hi : nth_error (L ++ D :: R) (length L) = Some D) by apply nth_error_mid.
+    assert (HPD : tpath dt (par ++ [length L]) = Some PD) by (eapply fpath_snoc; eassumption).
+    assert (HhasD : has (rows dt) PD = true) by (eapply t_has_row; [|exact HPD]; destruct par; discriminate).
+    destruct (tpath_ext _ _ _ HPQ) as [restq [HPQe _]].
+    assert (HlenD : Nat.eqb (length PD) 1 = false).
+    { apply Nat.eqb_neq. unfold PD. rewrite app_length, HPQe. cbn. lia. }
+    assert (HrlD : removelast PD = PQ) by (unfold PD; apply removelast_last).
+    assert (HlastX : last PX [] = tname x) by (rewrite HP0; apply last_last).
+    unfold edit_rp. rewrite HhasD. cbn [negb andb]. rewrite HlenD. cbn [negb andb orb].
+    rewrite !HrlD, !HlastX.
+    replace (has (rows dt) (PQ ++ [tname x]) && negb (path_eqb (PQ ++ [tname x]) PD) && true) with false.
+    2: { symmetry. destruct (str_eqb (tname D) (tname x)) eqn:E.
+         - apply str_eqb_eq in E. unfold PD. rewrite E, path_eqb_refl. cbn [negb]. rewrite andb_false_r. reflexivity.
+         - rewrite (t_has_child dt par PQ _ (tname x) Hwfd HPQ Hks), existsb_names_app. cbn [existsb]. rewrite E.
+           rewrite existsb_name_false by (intros k Hk0; apply Hfresh; apply in_or_app; left; exact Hk0).
+           rewrite existsb_name_false by (intros k Hk0; apply Hfresh; apply in_or_app; right; exact Hk0).
+           reflexivity. }
+    rewrite Hdc. unfold reroot. cbn [fst snd]. fold (sub_rows (rows s) PX). rewrite Hsub.
+    rewrite Hk. cbn [Nat.sub]. rewrite Nat.sub_0_r. rewrite (reroot_rows_from x P0 PQ true). reflexivity.
+Qed.
+
+Lemma listed_after_app X Y PA PB :
+  (forall r, In r X -> at_path PA r = false /\ at_path PB r = false) ->
+  listed_after (X ++ Y) PA PB = listed_after Y PA PB.
+Proof.
+  induction X as [|x X IH]; intros H; [reflexivity|]. cbn [app listed_after].
+  destruct (H x (or_introl eq_refl)) as [H1 H2]. rewrite H1, H2. apply IH. intros r Hr. apply H. right; exact Hr.
+Qed.
+
+Lemma not_under_not_at P r : under P r = false -> at_path P r = false.
+Proof. intros H. destruct (at_path P r) eqn:E; [|reflexivity]. apply at_path_under in E. congruence. Qed.
+
+Lemma minus_app tb tb' P : minus (tb ++ tb') P = minus tb P ++ minus tb' P.
+Proof. unfold minus. apply filter_app. Qed.
+
+Lemma minus_none tb P : (forall r, In r tb -> under P r = false) -> minus tb P = tb.
+Proof. intros H. unfold minus. apply filter_all. intros r Hr. rewrite (H r Hr). reflexivity. Qed.
+
+Lemma minus_all tb P : (forall r, In r tb -> under P r = true) -> minus tb P = [].
+Proof. intros H. unfold minus. apply filter_none. intros r Hr. rewrite (H r Hr). reflexivity. Qed.
+
+Lemma names_neq_mid (a b : list tree) x k : NoDup (map tname (a ++ x :: b)) -> In k (a ++ b) -> tname k <> tname x.
+Proof.
+  intros Hnd Hk E. rewrite map_app in Hnd. cbn [map] in Hnd. apply NoDup_remove_2 in Hnd. apply Hnd.
+  rewrite <- map_app, <- E. apply in_map. exact Hk.
+Qed.
+
+(* DESIGN.md "C08_replace_position", shift_and_replace_nodes, F a RIGHT sibling of D *)
+Theorem C08_replace_right_sibling_stmt c fl t par L D R1 F R2 PQ :
+  plain_replace c -> f_dc fl = false -> wf_t t -> tpath t par = Some PQ ->
+  fkids par (tkids t) = Some (L ++ D :: R1 ++ F :: R2) ->
+  let PD := PQ ++ [tname D] in let PX := PQ ++ [tname F] in
+  (exists rest, rp_core c [t] (0 :: par ++ [length L + S (length R1)]) (0 :: par ++ [length L])
+                = (t_remove (par ++ [length L]) t :: rest, None))
+  /\ rows (t_remove (par ++ [length L]) t) = minus (rows t) PD
+  /\ edit_rp false true fl (rows t) (rows t) PX (Some PD) = PNext (minus (rows t) PD) (minus (rows t) PD).
+Proof.
+  intros Hpr Hdc Hwf HPQ Hks PD PX.
+  assert (Hnd : NoDup (map tname (L ++ D :: R1 ++ F :: R2))) by (apply (wf_fkids par (tkids t) _ (wf_t_kids _ Hwf) Hks)).
+  assert (HPD : tpath t (par ++ [length L]) = Some PD) by (eapply fpath_snoc; [exact HPQ|exact Hks|apply nth_error_mid]).
+  assert (Hne : par ++ [length L] <> []) by (destruct par; discriminate).
+  assert (HnDF : tname F <> tname D).
+  { apply (names_neq_mid L (R1 ++ F :: R2) D F Hnd). apply in_or_app. right. apply in_or_app. right. left. reflexivity. }
+  split; [apply (replace_right_sibling c t par L D R1 F R2); try assumption; exists PQ; exact HPQ|].
+  split; [apply rows_t_remove; assumption|].
+  destruct (rows_setk_ctx t par PQ Hwf HPQ) as [A [B [H1 H2]]].
+  assert (HT : rows t = A ++ frows PQ (L ++ D :: R1 ++ F :: R2) ++ B) by (rewrite <- H1, (t_setk_id par t _ Hks); reflexivity).
+  destruct (tpath_ext _ _ _ HPQ) as [restq [HPQe _]].
+  assert (HhasD : has (rows t) PD = true) by (eapply t_has_row; [exact Hne|exact HPD]).
+  assert (HhasX : has (rows t) PX = true).
+  { unfold PX. rewrite (t_has_child t par PQ _ (tname F) Hwf HPQ Hks). eapply existsb_true.
+    - apply in_or_app. right. right. apply in_or_app. right. left. reflexivity.
+    - apply str_eqb_refl. }
+  unfold edit_rp. rewrite HhasD. cbn [negb andb].
+  assert (E1 : path_eqb PD PX = false).
+  { destruct (path_eqb PD PX) eqn:E; [|reflexivity]. apply path_eqb_eq in E. unfold PD, PX in E.
+    apply app_inj_tail in E as [_ E]. congruence. }
+  rewrite E1.
+  assert (E2 : Nat.eqb (length PD) 1 = false) by (apply Nat.eqb_neq; unfold PD; rewrite app_length, HPQe; cbn; lia).
+  rewrite E2.
+  assert (E3 : pfx PX PD = false).
+  { unfold PX, PD. rewrite pfx_app_same. cbn. destruct (str_eqb (tname F) (tname D)) eqn:E; [|reflexivity].
+    apply str_eqb_eq in E. congruence. }
+  rewrite E3. cbn [orb andb negb].
+  assert (E4 : Nat.eqb (length PX) 1 = false) by (apply Nat.eqb_neq; unfold PX; rewrite app_length, HPQe; cbn; lia).
+  rewrite E4.
+  assert (HrlD : removelast PD = PQ) by (unfold PD; apply removelast_last).
+  assert (HrlX : removelast PX = PQ) by (unfold PX; apply removelast_last).
+  assert (HlastX : last PX [] = tname F) by (unfold PX; apply last_last).
+  rewrite !HrlD, !HrlX, !HlastX. fold PX. rewrite HhasX, !path_eqb_refl. cbn [negb andb]. rewrite ?andb_false_r. cbn [negb andb].
+  replace (listed_after (rows t) PX PD) with true; [rewrite Hdc; reflexivity|].
+  symmetry. rewrite HT, frows_app, frows_cons.
+  replace (A ++ (frows PQ L ++ rows_from PQ D ++ frows PQ (R1 ++ F :: R2)) ++ B)
+    with ((A ++ frows PQ L) ++ rows_from PQ D ++ frows PQ (R1 ++ F :: R2) ++ B) by (rewrite <- !app_assoc; reflexivity).
+  rewrite listed_after_app.
+  - rewrite rows_from_eq. cbn [app listed_after]. fold PD. unfold at_path at 1. cbn [rpath fst]. rewrite path_eqb_refl.
+    unfold has. rewrite !existsb_app. rewrite frows_app, frows_cons, rows_from_eq. fold PX.
+    rewrite !existsb_app. cbn [existsb]. unfold at_path at 3. cbn [rpath fst]. rewrite path_eqb_refl.
+    rewrite !orb_true_r. reflexivity.
+  - intros r Hr. apply in_app_or in Hr as [Hr|Hr].
+    + split; apply not_under_not_at; apply H2; apply in_or_app; left; exact Hr.
+    + split; apply not_under_not_at; (eapply frows_names_not_under; [|exact Hr]); intros k Hk.
+      * apply (names_neq_mid (L ++ D :: R1) R2 F k).
+        { rewrite <- app_assoc. exact Hnd. }
+        apply in_or_app. left. apply in_or_app. left. exact Hk.
+      * apply (names_neq_mid L (R1 ++ F :: R2) D k Hnd). apply in_or_app. left. exact Hk.
+Qed.
+
+(* shift_and_replace_nodes, F a LEFT sibling of D: F sits between L2 and R, at D's former position *)
+Theorem C08_replace_left_sibling_stmt c fl t par L1 F L2 D R PQ :
+  plain_replace c -> f_dc fl = false -> wf_t t -> tpath t par = Some PQ ->
+  fkids par (tkids t) = Some (L1 ++ F :: L2 ++ D :: R) ->
+  let PD := PQ ++ [tname D] in let PX := PQ ++ [tname F] in
+  let t2 := t_setk par (L1 ++ L2 ++ F :: R) t in
+  (exists rest, rp_core c [t] (0 :: par ++ [length L1]) (0 :: par ++ [length L1 + S (length L2)]) = (t2 :: rest, None))
+  /\ rows t2 = minus (before_block (rows t) PD) PX ++ rows_from PQ F ++ minus (after_block (rows t) PD) PX
+  /\ edit_rp false true fl (rows t) (rows t) PX (Some PD) = PNext (rows t2) (rows t2).
+Proof.
+  intros Hpr Hdc Hwf HPQ Hks PD PX t2.
+  assert (Hnd : NoDup (map tname (L1 ++ F :: L2 ++ D :: R))) by (apply (wf_fkids par (tkids t) _ (wf_t_kids _ Hwf) Hks)).
+  assert (Hnd' : NoDup (map tname ((L1 ++ F :: L2) ++ D :: R))) by (rewrite <- app_assoc; exact Hnd).
+  assert (HnDF : tname F <> tname D).
+  { apply (names_neq_mid (L1 ++ F :: L2) R D F Hnd'). apply in_or_app. left. apply in_or_app. right. left. reflexivity. }
+  destruct (rows_setk_ctx t par PQ Hwf HPQ) as [A [B [H1 H2]]].
+  assert (HT : rows t = A ++ frows PQ ((L1 ++ F :: L2) ++ D :: R) ++ B).
+  { rewrite <- H1, <- app_assoc. cbn [app]. rewrite (t_setk_id par t _ Hks). reflexivity. }
+  destruct (blocks_around_child A B PQ (L1 ++ F :: L2) D R H2 Hnd') as [Hb Ha]. cbn zeta in Hb, Ha.
+  rewrite <- HT in Hb, Ha. fold PD in Hb, Ha.
+  assert (HA_PX : forall r, In r A -> under PX r = false) by (intros r Hr; apply H2; apply in_or_app; left; exact Hr).
+  assert (HB_PX : forall r, In r B -> under PX r = false) by (intros r Hr; apply H2; apply in_or_app; right; exact Hr).
+  assert (HL1 : forall r, In r (frows PQ L1) -> under PX r = false).
+  { intros r Hr. eapply frows_names_not_under; [|exact Hr]. intros k Hk.
+    apply (names_neq_mid L1 (L2 ++ D :: R) F k Hnd). apply in_or_app. left. exact Hk. }
+  assert (HL2 : forall r, In r (frows PQ L2) -> under PX r = false).
+  { intros r Hr. eapply frows_names_not_under; [|exact Hr]. intros k Hk.
+    apply (names_neq_mid L1 (L2 ++ D :: R) F k Hnd). apply in_or_app. right. apply in_or_app. left. exact Hk. }
+  assert (HR : forall r, In r (frows PQ R) -> under PX r = false).
+  { intros r Hr. eapply frows_names_not_under; [|exact Hr]. intros k Hk.
+    apply (names_neq_mid L1 (L2 ++ D :: R) F k Hnd). apply in_or_app. right. apply in_or_app. right. right. exact Hk. }
+  assert (HFall : forall r, In r (rows_from PQ F) -> under PX r = true) by (intros r Hr; apply rows_self_under; exact Hr).
+  assert (Hrows : rows t2 = minus (before_block (rows t) PD) PX ++ rows_from PQ F ++ minus (after_block (rows t) PD) PX).
+  { rewrite Hb, Ha. rewrite frows_app, frows_cons. rewrite !minus_app.
+    rewrite (minus_none A), (minus_none (frows PQ L1)), (minus_all (rows_from PQ F)), (minus_none (frows PQ L2)),
+      (minus_none (frows PQ R)), (minus_none B) by assumption.
+    unfold t2. rewrite H1, !frows_app, frows_cons. cbn [app]. rewrite <- !app_assoc. reflexivity. }
+  split; [apply (replace_left_sibling c t par L1 F L2 D R); try assumption; exists PQ; exact HPQ|]. split; [exact Hrows|].
+  rewrite Hrows.
+  assert (Hi : nth_error (L1 ++ F :: L2 ++ D :: R) (length L1 + S (length L2)) = Some D).
+  { change (L1 ++ F :: L2 ++ D :: R) with (L1 ++ (F :: L2) ++ D :: R).
+    replace (length L1 + S (length L2)) with (length L1 + length (F :: L2)) by reflexivity. apply nth_error_mid2. }
+  assert (HPD : tpath t (par ++ [length L1 + S (length L2)]) = Some PD) by (eapply fpath_snoc; eassumption).
+  assert (HPXp : tpath t (par ++ [length L1]) = Some PX) by (eapply fpath_snoc; [exact HPQ|exact Hks|apply nth_error_mid]).
+  assert (HgF : tget t (par ++ [length L1]) = Some F) by (unfold tget; eapply fget_snoc; [exact Hks|apply nth_error_mid]).
+  assert (HneF : par ++ [length L1] <> []) by (destruct par; discriminate).
+  destruct (t_sub_rows t _ F PX Hwf HneF HgF HPXp) as [P0 [HP0 Hsub]].
+  assert (HP0' : P0 = PQ) by (unfold PX in HP0; apply app_inj_tail in HP0 as [E _]; symmetry; exact E).
+  subst P0.
+  destruct (tpath_ext _ _ _ HPQ) as [restq [HPQe _]].
+  assert (HhasD : has (rows t) PD = true) by (eapply t_has_row; [|exact HPD]; destruct par; discriminate).
+  assert (HhasX : has (rows t) PX = true) by (eapply t_has_row; [exact HneF|exact HPXp]).
+  unfold edit_rp. rewrite HhasD. cbn [negb andb].
+  assert (E1 : path_eqb PD PX = false).
+  { destruct (path_eqb PD PX) eqn:E; [|reflexivity]. apply path_eqb_eq in E. unfold PD, PX in E.
+    apply app_inj_tail in E as [_ E]. congruence. }
+  rewrite E1.
+  assert (E2 : Nat.eqb (length PD) 1 = false) by (apply Nat.eqb_neq; unfold PD; rewrite app_length, HPQe; cbn; lia).
+  rewrite E2.
+  assert (E3 : pfx PX PD = false).
+  { unfold PX, PD. rewrite pfx_app_same. cbn. destruct (str_eqb (tname F) (tname D)) eqn:E; [|reflexivity].
+    apply str_eqb_eq in E. congruence. }
+  rewrite E3. cbn [orb andb negb].
+  assert (E4 : Nat.eqb (length PX) 1 = false) by (apply Nat.eqb_neq; unfold PX; rewrite app_length, HPQe; cbn; lia).
+  rewrite E4.
+  assert (HrlD : removelast PD = PQ) by (unfold PD; apply removelast_last).
+  assert (HrlX : removelast PX = PQ) by (unfold PX; apply removelast_last).
+  assert (HlastX : last PX [] = tname F) by (unfold PX; apply last_last).
+  rewrite !HrlD, !HrlX, !HlastX. fold PX. rewrite HhasX, !path_eqb_refl. cbn [negb andb]. rewrite ?andb_false_r. cbn [negb andb].
+  replace (listed_after (rows t) PX PD) with false.
+  2: { symmetry. rewrite HT, !frows_app, frows_cons.
+       replace (A ++ ((frows PQ L1 ++ rows_from PQ F ++ frows PQ L2) ++ frows PQ (D :: R)) ++ B)
+         with ((A ++ frows PQ L1) ++ rows_from PQ F ++ (frows PQ L2 ++ frows PQ (D :: R) ++ B))
+         by (rewrite <- !app_assoc; reflexivity).
+       rewrite listed_after_app.
+       - rewrite rows_from_eq. cbn [app listed_after]. fold PX. unfold at_path at 1 2. cbn [rpath fst].
+         rewrite E1, path_eqb_refl. reflexivity.
+       - intros r Hr. apply in_app_or in Hr as [Hr|Hr].
+         + split; apply not_under_not_at; apply H2; apply in_or_app; left; exact Hr.
+         + split; apply not_under_not_at; [apply HL1; exact Hr|].
+           eapply frows_names_not_under; [|exact Hr]. intros k Hk.
+           apply (names_neq_mid (L1 ++ F :: L2) R D k Hnd'). apply in_or_app. left. apply in_or_app. left. exact Hk. }
+  rewrite Hdc. unfold reroot. cbn [fst snd]. fold (sub_rows (rows t) PX). rewrite Hsub.
+  replace (length PX - 1) with (length PQ) by (unfold PX; rewrite app_length; cbn; lia).
+  rewrite (reroot_rows_from F PQ PQ false). reflexivity.
+Qed.
+
+(* ============================================================================================== *)
+(* Part 16.  The string layer for full paths under a single-character separator that occurs in no    *)
+(* name: normalisation, the argument checks and the two path look-ups, for the plain shift.        *)
+
+Definition sepfree (c : N) (w : str) : Prop := w <> [] /\ ~ In c w.
+
+Lemma startswith1 c y t : startswith (y :: t) [c] = N.eqb c y.
+Proof. cbn. apply andb_true_r. Qed.
+
+Lemma replace_go_id c : forall fuel s, length s < fuel -> replace_go fuel [c] [c] s = s.
+Proof.
+  induction fuel as [|f IH]; intros s H; [lia|]. destruct s as [|y t]; [reflexivity|].
+  cbn [replace_go]. rewrite startswith1. cbn [length] in H. destruct (N.eqb c y) eqn:E.
+  - apply N.eqb_eq in E. subst. cbn [length skipn app]. f_equal. apply IH. lia.
+  - f_equal. apply IH. lia.
+Qed.
+
+Lemma replace_id c s : replace s [c] [c] = s.
+Proof. unfold replace. apply replace_go_id. lia. Qed.
+
+Lemma lstrip_noop c y t : y <> c -> lstrip (y :: t) [c] = y :: t.
+Proof. intros H. cbn. replace (N.eqb y c) with false by (symmetry; apply N.eqb_neq; exact H). reflexivity. Qed.
+
+Lemma rstrip_noop c s y : last s y <> c -> s <> [] -> rstrip s [c] = s.
+Proof.
+  intros H Hs. unfold rstrip. destruct s as [|a s] using rev_ind; [congruence|].
+  rewrite rev_app_distr. cbn [rev app]. rewrite last_last in H. rewrite lstrip_noop by exact H.
+  cbn [rev]. rewrite rev_involutive. reflexivity.
+Qed.
+
+Lemma join_cons2 sp x y t : join sp (x :: y :: t) = x ++ sp ++ join sp (y :: t).
+Proof. reflexivity. Qed.
+
+Lemma join_nonempty c comps : comps <> [] -> Forall (sepfree c) comps -> join [c] comps <> [].
+Proof.
+  intros Hne Hf. destruct comps as [|w ws]; [congruence|]. inversion Hf as [|? ? [Hw _] _]; subst.
+  destruct ws; cbn; [exact Hw|]. destruct w; [congruence|discriminate].
+Qed.
+
+Lemma join_hd c comps d : comps <> [] -> Forall (sepfree c) comps -> hd d (join [c] comps) <> c.
+Proof.
+  intros Hne Hf. destruct comps as [|w ws]; [congruence|]. inversion Hf as [|? ? [Hw Hc] _]; subst.
+  destruct w as [|a w]; [congruence|]. assert (a <> c) by (intros ->; apply Hc; left; reflexivity).
+  destruct ws; cbn; exact H.
+Qed.
+
+Lemma last_app_ne {A} (a b : list A) d : b <> [] -> last (a ++ b) d = last b d.
+Proof.
+  intros Hb. destruct b as [|x b] using rev_ind; [congruence|]. rewrite app_assoc, !last_last. reflexivity.
+Qed.
+
+Lemma join_last c : forall comps d, comps <> [] -> Forall (sepfree c) comps -> last (join [c] comps) d <> c.
+Proof.
+  induction comps as [|w ws IH]; intros d Hne Hf; [congruence|]. inversion Hf as [|? ? [Hw Hc] Hf']; subst.
+  destruct ws as [|w' ws].
+  - cbn [join]. destruct w as [|a w] using rev_ind; [congruence|]. rewrite last_last.
+    intros ->. apply Hc. apply in_or_app. right. left. reflexivity.
+  - rewrite join_cons2. rewrite app_assoc.
+    assert (Hj : join [c] (w' :: ws) <> []) by (apply join_nonempty; [discriminate|exact Hf']).
+    rewrite last_app_ne by exact Hj. apply IH; [discriminate|exact Hf'].
+Qed.
+
+(* split at a single-character separator *)
+Lemma split_go_word c : forall w fuel cur rest,
+  ~ In c w -> length w + length rest < fuel ->
+  split_go fuel [c] cur (w ++ rest) = split_go (fuel - length w) [c] (rev w ++ cur) rest.
+Proof.
+  induction w as [|a w IH]; intros fuel cur rest Hc Hf; [rewrite Nat.sub_0_r; reflexivity|].
+  destruct fuel as [|f]; [cbn in Hf; lia|]. cbn [app split_go]. rewrite startswith1.
+  replace (N.eqb c a) with false by (symmetry; apply N.eqb_neq; intros ->; apply Hc; left; reflexivity).
+  cbn [length] in *. rewrite IH; [|intros Hin; apply Hc; right; exact Hin|lia].
+  cbn [rev Nat.sub]. rewrite <- app_assoc. reflexivity.
+Qed.
+
+Lemma split_go_join c : forall comps fuel cur,
+  comps <> [] -> Forall (fun w => ~ In c w) comps -> length (join [c] comps) < fuel ->
+  split_go fuel [c] cur (join [c] comps) = (rev cur ++ hd [] comps) :: tl comps.
+Proof.
+  induction comps as [|w ws IH]; intros fuel cur Hne Hf Hfuel; [congruence|].
+  inversion Hf as [|? ? Hw Hf']; subst. destruct ws as [|w' ws].
+  - cbn [join hd tl]. rewrite <- (app_nil_r w) at 1. rewrite split_go_word; [|exact Hw|cbn [join] in Hfuel; cbn; lia].
+    destruct (fuel - length w) eqn:E; cbn [split_go]; rewrite rev_app_distr, rev_involutive; reflexivity.
+  - rewrite join_cons2 in *. rewrite !app_length in Hfuel. cbn [length] in Hfuel.
+    rewrite split_go_word; [|exact Hw|rewrite app_length; cbn [length]; lia].
+    destruct (fuel - length w) as [|f] eqn:E; [lia|]. cbn [app split_go]. rewrite startswith1, N.eqb_refl.
+    cbn [length skipn hd tl]. rewrite rev_app_distr, rev_involutive. f_equal.
+    match type of Hfuel with _ + (_ + length ?j) < _ => assert (Hlt : length j < f) by lia end.
+    exact (IH f [] ltac:(discriminate) Hf' Hlt).
+Qed.
+
+Lemma split_join c comps :
+  comps <> [] -> Forall (sepfree c) comps -> split (join [c] comps) [c] = comps.
+Proof.
+  intros Hne Hf. unfold split. rewrite split_go_join; [destruct comps; [congruence|reflexivity]|exact Hne| |lia].
+  eapply Forall_impl; [|exact Hf]. intros w [_ H]. exact H.
+Qed.
+
+Lemma norm_path c comps :
+  comps <> [] -> Forall (sepfree c) comps ->
+  replace (rstrip (join [c] comps) [c]) [c] [c] = join [c] comps
+  /\ split (lstrip (join [c] comps) [c]) [c] = comps
+  /\ split (lstrip (rstrip (join [c] comps) [c]) [c]) [c] = comps
+  /\ split (rstrip (lstrip (join [c] comps) [c]) [c]) [c] = comps.
+Proof.
+  intros Hne Hf.
+  assert (Hr : rstrip (join [c] comps) [c] = join [c] comps).
+  { apply (rstrip_noop c _ c); [apply join_last; assumption|apply join_nonempty; assumption]. }
+  assert (Hl : lstrip (join [c] comps) [c] = join [c] comps).
+  { pose proof (join_hd c comps c Hne Hf) as Hh. pose proof (join_nonempty c comps Hne Hf) as Hn.
+    destruct (join [c] comps) as [|y t]; [congruence|]. apply lstrip_noop. exact Hh. }
+  rewrite Hr, Hl, Hr, replace_id, split_join by assumption. auto.
+Qed.
+
+(* -- find_full_path on a well-formed tree --------------------------------------------------------- *)
+
+Lemma name_idx_unique (ks : list tree) : forall i k n,
+  NoDup (map tname ks) -> nth_error ks i = Some k -> name_idx (tname k) n ks = [n + i].
+Proof.
+  induction ks as [|k0 ks IH]; intros i k n Hn Hi; [destruct i; discriminate|].
+  cbn [map] in Hn. inversion Hn as [|? ? Hnotin Hn']; subst. cbn [name_idx]. destruct i as [|i]; cbn in Hi.
+  - inversion Hi; subst. rewrite str_eqb_refl, Nat.add_0_r. rewrite name_idx_none; [reflexivity|].
+    intros k' Hk' E. apply Hnotin. rewrite <- E. apply in_map. exact Hk'.
+  - replace (str_eqb (tname k0) (tname k)) with false.
+    + cbn [app]. rewrite (IH i k (S n) Hn' Hi). f_equal. lia.
+    + symmetry. apply str_eqb_neq. intros E. apply Hnotin. rewrite E. apply in_map. eapply nth_error_In. exact Hi.
+Qed.
+
+Lemma walk_names_complete : forall p (ks : forest) here pre names,
+  wf_f ks -> fpath pre p ks = Some (pre ++ names) -> walk_names ks here names = Ret (Some (here ++ p)).
+Proof.
+  induction p as [|i p IH]; intros ks here pre names Hwf HP.
+  - cbn in HP. inversion HP as [E]. rewrite <- (app_nil_r pre) in E at 1. apply app_inv_head in E. subst names.
+    cbn. rewrite app_nil_r. reflexivity.
+  - cbn [fpath] in HP. destruct (nth_error ks i) as [k|] eqn:Ek; [|discriminate].
+    destruct (fpath_ext _ _ _ _ HP) as [rest [E _]]. rewrite <- app_assoc in E. apply app_inv_head in E. cbn [app] in E.
+    subst names. cbn [walk_names]. rewrite (name_idx_unique ks i k 0 (proj1 Hwf) Ek). cbn [Nat.add]. rewrite Ek.
+    assert (Hk : wf_t k) by (destruct Hwf as [_ Hf]; rewrite Forall_forall in Hf; apply Hf; eapply nth_error_In; exact Ek).
+    rewrite (IH (tkids k) (here ++ [i]) (pre ++ [tname k]) rest (wf_t_kids _ Hk)).
+    + rewrite <- app_assoc. reflexivity.
+    + rewrite HP, <- app_assoc. reflexivity.
+Qed.
+
+Lemma walk_names_sound : forall names (ks : forest) here r,
+  wf_f ks -> walk_names ks here names = Ret (Some r) ->
+  exists p, r = here ++ p /\ length p = length names /\ forall pre, fpath pre p ks = Some (pre ++ names).
+Proof.
+  induction names as [|c names IH]; intros ks here r Hwf H; cbn [walk_names] in H.
+  - inversion H; subst. exists []. rewrite app_nil_r. split; [reflexivity|]. split; [reflexivity|].
+    intros pre. cbn. rewrite app_nil_r. reflexivity.
+  - destruct (name_idx_spec c ks (proj1 Hwf) 0) as [[E _]|[i [k [E [Hi Hc]]]]]; rewrite E in H; [discriminate|].
+    cbn [Nat.add] in H. rewrite Hi in H.
+    assert (Hk : wf_t k) by (destruct Hwf as [_ Hf]; rewrite Forall_forall in Hf; apply Hf; eapply nth_error_In; exact Hi).
+    destruct (IH (tkids k) (here ++ [i]) r (wf_t_kids _ Hk) H) as [p [Hr [Hl Hp]]].
+    exists (i :: p). split; [rewrite Hr, <- app_assoc; reflexivity|]. split; [cbn; lia|].
+    intros pre. cbn [fpath]. rewrite Hi, Hp, Hc, <- app_assoc. reflexivity.
+Qed.
+
+Lemma walk_names_total : forall names (ks : forest) here, wf_f ks -> exists o, walk_names ks here names = Ret o.
+Proof.
+  induction names as [|c names IH]; intros ks here Hwf; cbn [walk_names]; [eexists; reflexivity|].
+  destruct (name_idx_spec c ks (proj1 Hwf) 0) as [[E _]|[i [k [E [Hi Hc]]]]]; rewrite E; [eexists; reflexivity|].
+  cbn [Nat.add]. rewrite Hi. apply IH.
+  apply wf_t_kids. destruct Hwf as [_ Hf]. rewrite Forall_forall in Hf. apply Hf. eapply nth_error_In. exact Hi.
+Qed.
+
+Lemma walk_names_absent t names :
+  wf_t t -> names <> [] -> has (rows t) (tname t :: names) = false -> walk_names (tkids t) [0] names = Ret None.
+Proof.
+  intros Hwf Hne Habs. destruct (walk_names_total names (tkids t) [0] (wf_t_kids _ Hwf)) as [[r|] E]; [|exact E].
+  destruct (walk_names_sound names (tkids t) [0] r (wf_t_kids _ Hwf) E) as [p [_ [Hl Hp]]].
+  assert (p <> []) by (destruct p; [destruct names; [congruence|discriminate]|discriminate]).
+  rewrite (t_has_row t p (tname t :: names) H (Hp [tname t])) in Habs. discriminate.
+Qed.
+
+Lemma add_path_comps_ne (f : forest) piece tsep path : path <> [] ->
+  add_path_comps f piece tsep path =
+  match nth_error f piece with
+  | None => Raise Unmodelled
+  | Some t => let br := split (rstrip (lstrip path tsep) tsep) tsep in
+              if negb (str_eqb (hd [] br) (tname t)) then Raise TreeError else Ret (tl br)
+  end.
+Proof. intros H. destruct path; [congruence|reflexivity]. Qed.
+
+Lemma truthy_some s : s <> [] -> truthy (Some s) = Some s.
+Proof. destruct s; [congruence|reflexivity]. Qed.
+
+Lemma removelast_snoc {A} (l : list A) x : removelast (l ++ [x]) = l.
+Proof. apply removelast_last. Qed.
+
+(* DESIGN.md: the whole call, on path strings: plain shift_nodes with with_full_path=True, one pair, a
+   single-character separator that occurs in no name involved.  The call passes the argument checks and
+   returns without exception; the tree afterwards is the documented edit. *)
+Theorem C08_shift_whole_call_stmt (c0 : N) sk t p x comps PX :
+  let sep := [c0] in
+  let fl := MF sk false false false false true in
+  let Q := tname t :: comps in
+  wf_t t -> p <> [] -> tget t p = Some x -> tpath t p = Some PX ->
+  Forall (sepfree c0) PX -> Forall (sepfree c0) Q ->
+  pfx PX Q = false -> has (rows t) (Q ++ [tname x]) = false ->
+  let i := MI OpShift fl sep t sep (T None [] [] []) sep [join sep PX] [Some (join sep (Q ++ [tname x]))] in
+  valid_call i = true
+  /\ exists t2, run i = ([t2], None)
+     /\ rows t2 = insert_last (minus (ensure (rows t) [tname t] comps) PX) Q (rows_from Q x)
+     /\ edit_cs false true fl (rows t) (rows t) PX (Some (Q ++ [tname x])) = PNext (rows t2) (rows t2).
+Proof.
+  intros sep fl Q Hwf Hp Hx HPX HfX HfQ Hnotin Habs i. subst sep.
+  destruct (t_sub_rows t p x PX Hwf Hp Hx HPX) as [P0 [HP0 _]].
+  destruct (tpath_ext _ _ _ HPX) as [restp [HPe Hlp]].
+  assert (Hsx : sepfree c0 (tname x)).
+  { rewrite HP0 in HfX. apply Forall_app in HfX as [_ H]. inversion H; assumption. }
+  assert (HfT : Forall (sepfree c0) (Q ++ [tname x])) by (apply Forall_app; split; [exact HfQ|constructor; [exact Hsx|constructor]]).
+  assert (HneX : PX <> []) by (rewrite HPe; discriminate).
+  assert (HneQ : Q <> []) by (unfold Q; discriminate).
+  assert (HneT : Q ++ [tname x] <> []) by (destruct Q; discriminate).
+  destruct (norm_path c0 PX HneX HfX) as [Hx1 [Hx2 [Hx3 Hx4]]].
+  destruct (norm_path c0 (Q ++ [tname x]) HneT HfT) as [Ht1 [Ht2 [Ht3 Ht4]]].
+  destruct (norm_path c0 Q HneQ HfQ) as [Hq1 [Hq2 [Hq3 Hq4]]].
+  set (fp := join [c0] PX) in *. set (tp := join [c0] (Q ++ [tname x])) in *.
+  assert (Htpne : tp <> []) by (apply join_nonempty; assumption).
+  pose (c := CFG false false [c0] [c0] [c0] fl).
+  assert (Hnf : norm_from c fp = fp) by (unfold norm_from, c; cbn [c_sep c_ssep]; exact Hx1).
+  assert (Hnt : norm_to c (Some tp) = Some tp).
+  { unfold norm_to. rewrite truthy_some by exact Htpne. unfold c. cbn [c_sep c_dsep]. f_equal. exact Ht1. }
+  assert (Hsplitf : split fp [c0] = PX) by (apply split_join; assumption).
+  assert (Hsplitt : split tp [c0] = Q ++ [tname x]) by (apply split_join; assumption).
+  assert (Hcomps : forall cc, In cc comps -> cc <> []).
+  { intros cc Hcc. inversion HfQ as [|? ? _ Hf']; subst. rewrite Forall_forall in Hf'. apply (Hf' cc Hcc). }
+  (* the argument checks *)
+  assert (Hval : cs_validate c [t] [fp] [Some tp] = None).
+  { unfold cs_validate. change (c_fl c) with fl. change (c_copy c) with false.
+    cbn [f_mc f_ml fl andb length Nat.eqb negb existsb map].
+    rewrite Hnf, Hnt. cbn [last_names_ok]. rewrite truthy_some by exact Htpne.
+    change (c_ssep c) with [c0]. change (c_dsep c) with [c0].
+    rewrite Hsplitf, Hsplitt, last_last. rewrite HP0 at 1. rewrite last_last, str_eqb_refl.
+    cbn [andb negb]. unfold roots_ok. change (c_fl c) with fl. change (c_ssep c) with [c0]. change (c_dsep c) with [c0].
+    change (dpiece c) with 0.
+    cbn [f_full fl negb orb forallb]. rewrite truthy_some by exact Htpne. rewrite Hx2, Ht2. unfold root_name. cbn [nth_error].
+    rewrite HPe at 1. cbn [hd app]. unfold Q. cbn [hd app]. rewrite !str_eqb_refl. reflexivity. }
+  split.
+  { unfold valid_call. change (cfg_of i) with c. cbn [mi_op i is_replace]. change (init_forest i) with [t].
+    change (mi_from i) with [fp]. change (mi_to i) with [Some tp]. rewrite Hval. reflexivity. }
+  destruct (shift_new_full c t p x comps PX) as [t2 [Hcore Hrows]]; try assumption.
+  { split; reflexivity. }
+  { reflexivity. }
+  exists t2. split; [|split; [exact Hrows|]].
+  - unfold run, run_from. cbn [mi_op i is_replace]. change (cfg_of i) with c. change (init_forest i) with [t].
+    change (mi_from i) with [fp]. change (mi_to i) with [Some tp].
+    unfold copy_or_shift_logic. rewrite Hval. change (seps_ok c) with true.
+    cbn [negb map run_pairs]. rewrite Hnf, Hnt.
+    assert (Hpair : cs_pair c [t] fp (Some tp) = ([t2], None)).
+    { unfold cs_pair, resolve_from. change (f_full (c_fl c)) with true. cbn iota.
+      unfold find_full_path at 1. cbn [nth_error]. change (c_ssep c) with [c0].
+      rewrite Hx3. rewrite HPe at 1. cbn [hd tl]. rewrite str_eqb_refl. cbn [negb].
+      assert (Hw : walk_names (tkids t) [0] (tl PX) = Ret (Some (0 :: p))).
+      { rewrite HPe. cbn [tl]. change (0 :: p) with ([0] ++ p).
+        apply (walk_names_complete p (tkids t) [0] [tname t] restp (wf_t_kids _ Hwf)).
+        unfold tpath in HPX. rewrite HPX, HPe. reflexivity. }
+      rewrite Hw.
+      unfold resolve_target. rewrite truthy_some by exact Htpne.
+      change (dpiece c) with 0. change (c_dsep c) with [c0].
+      unfold find_full_path. cbn [nth_error]. rewrite Ht3. unfold Q at 1. cbn [app hd tl]. rewrite str_eqb_refl. cbn [negb].
+      change (tl (Q ++ [tname x])) with (comps ++ [tname x]).
+      rewrite (walk_names_absent t (comps ++ [tname x]) Hwf ltac:(destruct comps; discriminate) Habs).
+      rewrite Hsplitt, removelast_snoc.
+      assert (Hjq : join [c0] Q <> []) by (apply join_nonempty; assumption).
+      rewrite add_path_comps_ne by exact Hjq. cbn [nth_error]. cbv zeta. rewrite Hq4.
+      unfold Q at 1. cbn [hd tl]. rewrite str_eqb_refl. cbn [negb].
+      exact Hcore. }
+    rewrite Hpair. reflexivity.
+  - rewrite Hrows. apply (edit_cs_shift_new fl t p x comps PX); try assumption; reflexivity.
+Qed.
+
+(* ============================================================================================== *)
+(* Part 17.  merge_leaves, for a source node all of whose children are leaves (then the leaves are    *)
+(* the children, and — unlike merge_children — the source node itself stays).                      *)
+
+Lemma ml_loop_spec nr rest p q : p <> [] -> is_prefix p q = false ->
+  forall K (s : tree) cs trk nm,
+  length cs = length K ->
+  (forall i c, nth_error cs i = Some c -> trk c = 0 :: p ++ [i]) ->
+  (exists P, tpath s p = Some P) -> (exists PQ, tpath s q = Some PQ) ->
+  qnames q s = Some nm -> NoDup (nm ++ map tname K) ->
+  ml_loop nr (t_setk p K s :: rest) cs trk (Some (0 :: q))
+  = (t_setk p [] (fold_left (fun s k => t_append q k s) K s) :: rest, None).
+Proof.
+  intros Hp Hpq. induction K as [|k0 K IH]; intros s cs trk nm Hlen Htrk [P HP] [PQ HPQ] Hnm Hnd.
+  - destruct cs; [|discriminate]. reflexivity.
+  - destruct cs as [|c0 cs]; [discriminate|]. cbn [ml_loop fold_left].
+    rewrite (Htrk 0 c0 eq_refl).
+    set (m := t_setk p (k0 :: K) s).
+    assert (Hne : p ++ [0] <> []) by (destruct p; discriminate).
+    assert (Hg : tget m (p ++ [0]) = Some k0).
+    { unfold tget, m, t_setk. rewrite tkids_set_kids. eapply fget_first_child; [exact HP|exact Hp]. }
+    assert (Hpq0 : is_prefix (p ++ [0]) q = false) by (apply is_prefix_child_false; left; exact Hpq).
+    assert (HPQm : tpath m q = Some PQ).
+    { unfold tpath, m, t_setk. rewrite tname_set_kids, tkids_set_kids, fpath_fsetk by (left; exact Hpq). exact HPQ. }
+    destruct (fkids_of_fpath _ _ _ _ HPQm) as [kqm Hkqm].
+    assert (Hnames : map tname kqm = nm).
+    { pose proof (fkids_names_fsetk p q (tkids s) (k0 :: K) Hpq) as E. unfold m, t_setk in Hkqm.
+      rewrite tkids_set_kids in Hkqm. rewrite Hkqm in E. unfold qnames in Hnm.
+      destruct (fkids q (tkids s)); cbn in *; [|discriminate]. inversion Hnm; subst. inversion E. reflexivity. }
+    assert (Hfresh : forall k, In k kqm -> tname k <> tname k0).
+    { intros k Hk E. eapply (NoDup_app_disj nm (map tname (k0 :: K)) (tname k0) Hnd).
+      - rewrite <- Hnames, <- E. apply in_map. exact Hk.
+      - left. reflexivity. }
+    destruct (move_in_tree' nr m rest (p ++ [0]) q k0 kqm Hne Hg Hpq0 Hkqm Hfresh (ex_intro _ PQ HPQm)) as [n Hm].
+    match goal with |- context [move ?a ?b ?c0' ?d] =>
+      replace (move a b c0' d) with
+        (MvOk (t_move (p ++ [0]) q k0 m :: rest) (track (0 :: p ++ [0]) ((0 :: adj' (p ++ [0]) q) ++ [n])))
+        by (symmetry; exact Hm) end.
+    set (t2 := track (0 :: p ++ [0]) ((0 :: adj' (p ++ [0]) q) ++ [n])).
+    assert (Ht2q : t2 (0 :: q) = 0 :: q).
+    { unfold t2. rewrite track_cons0 by assumption. rewrite adj'_child_removed by (left; exact Hpq). reflexivity. }
+    cbn [option_map]. rewrite Ht2q.
+    assert (Hmove : t_move (p ++ [0]) q k0 m = t_setk p K (t_append q k0 s)).
+    { unfold t_move. rewrite adj'_child_removed by (left; exact Hpq).
+      unfold t_remove, m, t_setk, t_append. rewrite !set_kids_set_kids, !tkids_set_kids.
+      rewrite fremove_first_child. f_equal. symmetry. eapply fsetk_fappend; [exact HP|exact Hpq]. }
+    rewrite Hmove.
+    apply (IH (t_append q k0 s) cs (fun z => t2 (trk z)) (nm ++ [tname k0])).
+    + cbn in Hlen. lia.
+    + intros i c Hc. rewrite (Htrk (S i) c Hc). unfold t2.
+      rewrite track_cons0; [|exact Hne|apply is_prefix_sibling_false; lia].
+      rewrite adj'_later_sibling. reflexivity.
+    + exists P. unfold tpath, t_append. rewrite tname_set_kids, tkids_set_kids.
+      apply fpath_fappend_frame. exact HP.
+    + exists PQ. unfold tpath, t_append. rewrite tname_set_kids, tkids_set_kids.
+      apply fpath_fappend_frame. exact HPQ.
+    + unfold qnames, t_append in *. rewrite tkids_set_kids.
+      destruct (fkids q (tkids s)) as [kq|] eqn:Ekq; [|discriminate]. cbn in Hnm. inversion Hnm; subst nm.
+      rewrite (fkids_fappend_self q _ k0 kq Ekq). cbn. rewrite map_app. reflexivity.
+    + rewrite <- app_assoc. exact Hnd.
+Qed.
+
+(* the leaves below a node whose children are all leaves are those children *)
+Lemma refs_leaf_children here names : forall (ks : list tree) i,
+  Forall (fun k => tkids k = []) ks ->
+  map (fun e => fst (fst e))
+      (filter (fun e => is_leaf (snd e))
+         ((fix go (i : nat) (l : list tree) : list (ref * list str * tree) :=
+             match l with [] => [] | k :: r => refs_from (here ++ [i]) names k ++ go (S i) r end) i ks))
+  = map (fun j => here ++ [j]) (seq i (length ks)).
+Proof.
+  induction ks as [|k ks IH]; intros i Hl; [reflexivity|]. inversion Hl as [|? ? Hk Hl']; subst.
+  cbn [length seq map]. destruct k as [g n a kk]. cbn [tkids] in Hk. subst kk.
+  cbn [refs_from app filter is_leaf tkids snd map fst]. f_equal. apply IH. exact Hl'.
+Qed.
+
+Lemma leaf_refs_children (f : forest) x t :
+  fget x f = Some t -> tkids t <> [] -> Forall (fun k => tkids k = []) (tkids t) ->
+  leaf_refs f x = child_refs x (length (tkids t)).
+Proof.
+  intros Hg Hne Hl. unfold leaf_refs, child_refs. rewrite Hg. destruct t as [g n a ks]. cbn [tkids] in *.
+  cbn [refs_from filter is_leaf tkids snd]. destruct ks as [|k0 ks]; [congruence|].
+  cbn [map]. apply (refs_leaf_children x [n] (k0 :: ks) 0 Hl).
+Qed.
+
+Lemma fkids_fappend_frame p : forall q (f : forest) k ks,
+  fkids p f = Some ks -> is_prefix p q = false -> fkids p (fappend q k f) = Some ks.
+Proof.
+  induction p as [|i p IH]; intros q f k ks Hk Hpq; [discriminate|].
+  cbn [fkids] in Hk. destruct (nth_error f i) as [t|] eqn:Et; [|discriminate].
+  destruct q as [|j q]; cbn [fappend fkids].
+  - rewrite nth_error_app1 by (apply nth_error_Some; congruence). rewrite Et. exact Hk.
+  - rewrite is_prefix_cons in Hpq. rewrite nth_error_upd_nth. destruct (Nat.eqb i j) eqn:E.
+    + rewrite Et. cbn [option_map]. rewrite tkids_set_kids. cbn [andb] in Hpq.
+      destruct p as [|i' p'].
+      * destruct q; discriminate.
+      * apply IH; assumption.
+    + rewrite Et. exact Hk.
+Qed.
+
+Lemma app_all_fkids q p : is_prefix p q = false -> forall K (s : tree) ks,
+  fkids p (tkids s) = Some ks -> fkids p (tkids (app_all q K s)) = Some ks.
+Proof.
+  intros Hpq. induction K as [|k K IH]; intros s ks Hk; [exact Hk|]. cbn [app_all fold_left].
+  apply IH. unfold t_append. rewrite tkids_set_kids. apply fkids_fappend_frame; assumption.
+Qed.
+
+Lemma rows_from_leaf P k : tkids k = [] -> rows_from P k = [(P ++ [tname k], ttag k, tattrs k)].
+Proof. intros H. rewrite rows_from_eq, H. reflexivity. Qed.
+
+Lemma frows_leaves P (K : list tree) :
+  Forall (fun k => tkids k = []) K -> frows P K = map (fun k => (P ++ [tname k], ttag k, tattrs k)) K.
+Proof.
+  induction K as [|k K IH]; intros H; [reflexivity|]. inversion H as [|? ? Hk H']; subst.
+  rewrite frows_cons, (rows_from_leaf P k Hk), IH by exact H'. reflexivity.
+Qed.
+
+Lemma In_insert_last tb H rs r : In r (insert_last tb H rs) <-> In r tb \/ In r rs.
+Proof.
+  induction tb as [|x tb IH]; cbn [insert_last]; [cbn [In]; tauto|].
+  destruct (under H x && negb (existsb (under H) tb)).
+  - cbn [In]. rewrite in_app_iff. tauto.
+  - cbn [In]. split.
+    + intros [E|Hin]; [left; left; exact E|]. apply IH in Hin as [Hin|Hin]; [left; right; exact Hin|right; exact Hin].
+    + intros [[E|Hin]|Hin]; [left; exact E| |]; right; apply IH; [left|right]; exact Hin.
+Qed.
+
+Lemma ensure_In todo : forall tb d r,
+  In r (ensure tb d todo) -> In r tb \/ exists j, rpath r = d ++ firstn (S j) todo.
+Proof.
+  induction todo as [|c todo IH]; intros tb d r Hr; cbn [ensure] in Hr; [left; exact Hr|].
+  apply IH in Hr as [Hr|[j Hj]].
+  - destruct (has tb (d ++ [c])); [left; exact Hr|]. apply In_insert_last in Hr as [Hr|[<-|[]]]; [left; exact Hr|].
+    right. exists 0. reflexivity.
+  - right. exists (S j). rewrite Hj, <- app_assoc. reflexivity.
+Qed.
+
+Lemma pfx_firstn d todo j : pfx (d ++ firstn j todo) (d ++ todo) = true.
+Proof. rewrite pfx_app_same. rewrite <- (firstn_skipn j todo) at 2. apply pfx_app. Qed.
+
+(* for a node whose children are all leaves, "the leaf rows below PX" = "the rows strictly below PX" *)
+Lemma leaves_of_flat_node t p x PX :
+  wf_t t -> p <> [] -> tget t p = Some x -> tpath t p = Some PX ->
+  tkids x <> [] -> Forall (fun k => tkids k = []) (tkids x) ->
+  filter (leaf_in (rows t)) (sub_rows (rows t) PX) = map (fun k => (PX ++ [tname k], ttag k, tattrs k)) (tkids x).
+Proof.
+  intros Hwf Hp Hx HPX Hne Hl. destruct (t_sub_rows t p x PX Hwf Hp Hx HPX) as [P0 [HP0 Hsub]].
+  rewrite Hsub, rows_from_eq, <- HP0, (frows_leaves PX _ Hl).
+  assert (Hin : forall k, In k (tkids x) -> In (PX ++ [tname k], ttag k, tattrs k) (rows t)).
+  { intros k Hk. assert (In (PX ++ [tname k], ttag k, tattrs k) (sub_rows (rows t) PX)).
+    { rewrite Hsub, rows_from_eq, <- HP0, (frows_leaves PX _ Hl). right. apply in_map_iff. exists k. split; [reflexivity|exact Hk]. }
+    unfold sub_rows in H. apply filter_In in H. apply H. }
+  cbn [filter]. replace (leaf_in (rows t) (PX, ttag x, tattrs x)) with false.
+  - apply filter_all. intros r Hr. apply in_map_iff in Hr as [k [<- Hk]].
+    unfold leaf_in. cbn [rpath fst]. rewrite existsb_false; [reflexivity|].
+    intros r' Hr'. destruct (sunder (PX ++ [tname k]) r') eqn:E; [|reflexivity].
+    unfold sunder in E. apply andb_true_iff in E as [E1 E2].
+    assert (Hsr : In r' (sub_rows (rows t) (PX ++ [tname k]))) by (unfold sub_rows; apply filter_In; split; assumption).
+    rewrite (t_sub_rows_child t p x PX k Hwf Hp Hx HPX Hk), (rows_from_leaf PX k) in Hsr.
+    2: { rewrite Forall_forall in Hl. apply Hl. exact Hk. }
+    destruct Hsr as [<-|[]]. cbn [rpath fst] in E2. rewrite path_eqb_refl in E2. discriminate.
+  - symmetry. unfold leaf_in. cbn [rpath fst]. apply negb_false_iff.
+    destruct (tkids x) as [|k0 K] eqn:EK; [congruence|].
+    eapply existsb_true; [apply (Hin k0); left; reflexivity|].
+    unfold sunder. cbn [rpath fst]. rewrite pfx_app. cbn [andb]. apply negb_true_iff.
+    destruct (path_eqb PX (PX ++ [tname k0])) eqn:E; [|reflexivity]. apply path_eqb_eq in E.
+    apply (f_equal (@length str)) in E. rewrite app_length in E. cbn in E. lia.
+Qed.
+
+Lemma existsb_map' {A B} (g : B -> bool) (h : A -> B) l : existsb g (map h l) = existsb (fun x => g (h x)) l.
+Proof. induction l as [|x l IH]; cbn; [reflexivity|]. rewrite IH. reflexivity. Qed.
+
+Lemma minus_rows_leaves t p x PX comps :
+  wf_t t -> p <> [] -> tget t p = Some x -> tpath t p = Some PX ->
+  Forall (fun k => tkids k = []) (tkids x) -> pfx PX (tname t :: comps) = false ->
+  minus_rows (ensure (rows t) [tname t] comps) (map (fun k => (PX ++ [tname k], ttag k, tattrs k)) (tkids x))
+  = minus_strict (ensure (rows t) [tname t] comps) PX.
+Proof.
+  intros Hwf Hp Hx HPX Hl Hnotin. unfold minus_rows, minus_strict. apply filter_ext_in. intros r Hr. f_equal.
+  destruct (t_sub_rows t p x PX Hwf Hp Hx HPX) as [P0 [HP0 Hsub]].
+  rewrite existsb_map'.
+  apply ensure_In in Hr as [Hr|[j Hj]].
+  - destruct (sunder PX r) eqn:E.
+    + unfold sunder in E. apply andb_true_iff in E as [E1 E2].
+      assert (Hsr : In r (sub_rows (rows t) PX)) by (unfold sub_rows; apply filter_In; split; assumption).
+      rewrite Hsub, rows_from_eq, <- HP0, (frows_leaves PX _ Hl) in Hsr. destruct Hsr as [<-|Hsr].
+      * cbn [rpath fst] in E2. rewrite path_eqb_refl in E2. discriminate.
+      * apply in_map_iff in Hsr as [k [<- Hk]]. eapply existsb_true; [exact Hk|]. cbn [rpath fst]. apply path_eqb_refl.
+    + apply existsb_false. intros k Hk. cbn [rpath fst].
+      destruct (path_eqb (PX ++ [tname k]) (rpath r)) eqn:E2; [|reflexivity]. apply path_eqb_eq in E2.
+      unfold sunder in E. rewrite <- E2, pfx_app in E. cbn [andb] in E. apply negb_false_iff, path_eqb_eq in E.
+      apply (f_equal (@length str)) in E. rewrite app_length in E. cbn in E. lia.
+  - assert (Hnp : pfx PX (rpath r) = false).
+    { destruct (pfx PX (rpath r)) eqn:E; [|reflexivity]. rewrite Hj in E.
+      pose proof (pfx_firstn [tname t] comps (S j)) as Hf. pose proof (pfx_trans _ _ _ E Hf) as Ht. cbn [app] in Ht. congruence. }
+    unfold sunder. rewrite Hnp. cbn [andb]. apply existsb_false. intros k Hk. cbn [rpath fst].
+    destruct (path_eqb (PX ++ [tname k]) (rpath r)) eqn:E2; [|reflexivity]. apply path_eqb_eq in E2.
+    rewrite <- E2, pfx_app in Hnp. discriminate.
+Qed.
+
+(* DESIGN.md "C08_merge_leaves", partial: GUARD = every child of the source node is a leaf (and there is one) *)
+Theorem C08_merge_leaves_partial_stmt sep tsep fl t p x comps PX :
+  f_mc fl = false -> f_ml fl = true -> wf_t t ->
+  p <> [] -> tget t p = Some x -> tpath t p = Some PX ->
+  tkids x <> [] -> Forall (fun k => tkids k = []) (tkids x) ->
+  (forall cc, In cc comps -> cc <> []) ->
+  pfx PX (tname t :: comps) = false ->
+  has (rows t) ((tname t :: comps) ++ [tname x]) = false ->
+  (forall k, In k (tkids x) -> has (rows t) ((tname t :: comps) ++ [tname k]) = false) ->
+  exists t2 rest,
+    cs_core (cfg_same false sep tsep fl) [t] (0 :: p) (TNew comps) = (t2 :: rest, None)
+    /\ rows t2 = ins_all (tname t :: comps) (tkids x) (minus_strict (ensure (rows t) [tname t] comps) PX)
+    /\ edit_cs false true fl (rows t) (rows t) PX (Some ((tname t :: comps) ++ [tname x])) = PNext (rows t2) (rows t2)
+    /\ subseq (minus_strict (rows t) PX) (rows t2).
+Proof.
+  intros Hmc Hml Hwf Hp Hx HPX HKne Hleaf Hne Hnotin Habs Hkabs. set (Q := tname t :: comps) in *.
+  set (c := cfg_same false sep tsep fl).
+  destruct (add_walk_spec comps [t] [0] [] [tname t] (wf_f_single _ Hwf) ltac:(discriminate) eq_refl Hne)
+    as [f' [q [Ha [Hwf' [Hlen [Hrows [Hq [Hpre [Hfr1 Hfr2]]]]]]]]].
+  destruct (forest1 f' Hlen) as [t1 ->].
+  destruct q as [|q0 q]; [discriminate|]. cbn [is_prefix] in Hpre. rewrite andb_true_r in Hpre.
+  apply Nat.eqb_eq in Hpre. subst q0.
+  assert (Hwf1 : wf_t t1) by (destruct Hwf' as [_ Hf]; inversion Hf; assumption).
+  assert (Hr1 : rows t1 = ensure (rows t) [tname t] comps).
+  { unfold frows in Hrows. cbn [flat_map] in Hrows. rewrite !app_nil_r in Hrows. exact Hrows. }
+  assert (HQ1 : tpath t1 q = Some Q) by exact Hq.
+  assert (HPX1 : tpath t1 p = Some PX) by exact (Hfr2 (0 :: p) PX HPX).
+  assert (Hpq : is_prefix p q = false).
+  { destruct (is_prefix p q) eqn:E; [|reflexivity].
+    rewrite (fpath_prefix_mono _ _ _ _ _ _ E HPX1 HQ1) in Hnotin. discriminate. }
+  assert (Hx1 : tget t1 p = Some x).
+  { unfold tget. rewrite <- (fget_cons0 p t1 []) by exact Hp. apply Hfr1.
+    - rewrite is_prefix_cons. cbn. exact Hpq.
+    - rewrite fget_cons0 by exact Hp. exact Hx. }
+  set (K := tkids x) in *. set (s := t_strip p t1).
+  assert (Hwfs : wf_t s) by (apply wf_t_set_kids, wf_fsetk_nil, wf_t_kids; exact Hwf1).
+  assert (HQs : tpath s q = Some Q).
+  { unfold tpath, s, t_strip. rewrite tname_set_kids, tkids_set_kids, fpath_fsetk by (left; exact Hpq). exact HQ1. }
+  assert (HPXs : tpath s p = Some PX).
+  { unfold tpath, s, t_strip. rewrite tname_set_kids, tkids_set_kids, fpath_fsetk by (right; reflexivity). exact HPX1. }
+  assert (Hrs : rows s = minus_strict (rows t1) PX) by (apply rows_t_strip; assumption).
+  assert (Hks : fkids p (tkids t1) = Some K).
+  { rewrite fkids_fget by exact Hp. unfold tget in Hx1. rewrite Hx1. reflexivity. }
+  assert (Hwfx : wf_t x) by (apply (wf_tget t p x Hwf Hx)).
+  destruct (fkids_of_fpath _ _ _ _ HQs) as [kq Hkq].
+  assert (Hhas_s : forall k, In k K -> has (rows s) (Q ++ [tname k]) = false).
+  { intros k Hk. rewrite Hrs. unfold minus_strict. apply has_filter_false.
+    rewrite Hr1, has_ensure_long; [apply Hkabs; exact Hk|]. unfold Q. rewrite app_length. cbn [length]. lia. }
+  assert (Hnd : NoDup (map tname kq ++ map tname K)).
+  { apply NoDup_app_intro.
+    - apply (wf_fkids q (tkids s) kq (wf_t_kids _ Hwfs) Hkq).
+    - apply (wf_t_kids _ Hwfx).
+    - intros n Hn1 Hn2. apply in_map_iff in Hn2 as [k [<- Hk]].
+      pose proof (Hhas_s k Hk) as Hh. rewrite (t_has_child s q Q kq (tname k) Hwfs HQs Hkq) in Hh.
+      apply in_map_iff in Hn1 as [k' [E Hk']].
+      assert (existsb (fun k0 => str_eqb (tname k0) (tname k)) kq = true)
+        by (eapply existsb_true; [exact Hk'|apply str_eqb_eq; exact E]). congruence. }
+  assert (Hqn : qnames q s = Some (map tname kq)) by (unfold qnames; rewrite Hkq; reflexivity).
+  assert (HKwf : Forall wf_t K) by (apply (wf_t_kids _ Hwfx)).
+  destruct (app_all_facts q Q K s (map tname kq) Hwfs HQs Hqn Hnd HKwf) as [Hwfn [Hrn Hfrn]].
+  set (sn := app_all q K s) in *.
+  assert (Hsn : t_setk p [] sn = sn).
+  { apply t_setk_id. unfold sn. apply app_all_fkids; [exact Hpq|].
+    unfold s, t_strip. rewrite tkids_set_kids. eapply fkids_fsetk_self. exact HPX1. }
+  assert (Hrows2 : rows sn = ins_all Q K (minus_strict (ensure (rows t) [tname t] comps) PX)) by (rewrite Hrn, Hrs, Hr1; reflexivity).
+  exists sn, []. split; [|split; [exact Hrows2|split]].
+  - unfold cs_core. change (dpiece c) with 0. rewrite Ha. change (f_mc (c_fl c)) with (f_mc fl). rewrite Hmc.
+    unfold attach. change (c_copy c) with false. change (f_ml (c_fl c)) with (f_ml fl). rewrite Hml.
+    cbn [orb andb negb]. rewrite is_prefix_cons. cbn [Nat.eqb andb]. rewrite Hpq.
+    assert (Hg0 : fget (0 :: p) [t1] = Some x) by (rewrite fget_cons0 by exact Hp; exact Hx1).
+    rewrite (leaf_refs_children [t1] (0 :: p) x Hg0 HKne Hleaf). fold K.
+    assert (Ht1 : t1 = t_setk p K s).
+    { unfold t_setk, s, t_strip. rewrite set_kids_set_kids, tkids_set_kids, fsetk_fsetk, (fsetk_id p _ _ Hks).
+      symmetry. apply set_kids_id. }
+    pose proof (ml_loop_spec (nroots c) [] p q Hp Hpq K s (child_refs (0 :: p) (length K)) (fun z => z) (map tname kq)
+                  (length_child_refs _ _)) as Hloop.
+    rewrite <- Ht1 in Hloop.
+    assert (Hloop' := Hloop (fun i c0 Hc0 => child_refs_nth _ _ _ _ Hc0) (ex_intro _ PX HPXs) (ex_intro _ Q HQs) Hqn Hnd).
+    fold (app_all q K s) in Hloop'. fold sn in Hloop'. rewrite Hsn in Hloop'.
+    match goal with |- ?lhs = _ => match type of Hloop' with ?lhs' = _ => replace lhs with lhs' by reflexivity end end.
+    exact Hloop'.
+  - rewrite Hrows2.
+    destruct (t_sub_rows t p x PX Hwf Hp Hx HPX) as [P0 [HP0 Hsub]].
+    destruct (tpath_ext _ _ _ HPX) as [rest0 [HPe Hl]].
+    assert (Hk2 : Nat.eqb (length PX) 1 = false).
+    { apply Nat.eqb_neq. rewrite HPe. cbn [length]. destruct p; [congruence|cbn in Hl; lia]. }
+    assert (Hneq : PX <> Q ++ [tname x]).
+    { intros E. rewrite <- E in Habs. rewrite (t_has_row t p PX Hp HPX) in Habs. discriminate. }
+    unfold edit_cs. rewrite Hk2. cbn [negb andb].
+    rewrite removelast_last, !last_last. rewrite HP0 at 1. rewrite last_last, str_eqb_refl. cbn [negb].
+    replace (path_eqb (Q ++ [tname x]) PX) with false.
+    2: { symmetry. destruct (path_eqb (Q ++ [tname x]) PX) eqn:E; [|reflexivity]. apply path_eqb_eq in E. congruence. }
+    rewrite (pfx_snoc_false PX Q (tname x) Hnotin Hneq). cbn [andb]. rewrite Habs.
+    replace (Nat.ltb (length (Q ++ [tname x])) 2) with false.
+    2: { symmetry. apply Nat.ltb_ge. rewrite app_length. unfold Q. cbn [length]. lia. }
+    rewrite Hmc, Hml.
+    assert (He : ensure (rows t) [] Q = ensure (rows t) [tname t] comps).
+    { unfold Q. cbn [ensure app]. rewrite has_root. reflexivity. }
+    rewrite He. fold (sub_rows (rows t) PX).
+    rewrite (leaves_of_flat_node t p x PX Hwf Hp Hx HPX HKne Hleaf). unfold K.
+    rewrite (minus_rows_leaves t p x PX comps Hwf Hp Hx HPX Hleaf Hnotin). fold K.
+    rewrite map_map. cbn [rpath fst].
+    rewrite (map_ext_in _ (fun k => (S (length PX), rows_from PX k))).
+    2: { intros k Hk. rewrite app_length. cbn [length]. rewrite Nat.add_1_r. f_equal. symmetry. apply rows_from_leaf.
+         rewrite Forall_forall in Hleaf. apply Hleaf. exact Hk. }
+    rewrite (attach_items_children Q (length PX) K _) with (PX := PX); [reflexivity| |apply (wf_t_kids _ Hwfx)|reflexivity].
+    intros k Hk. unfold minus_strict. apply has_filter_false.
+    rewrite has_ensure_long; [apply Hkabs; exact Hk|]. unfold Q. rewrite app_length. cbn [length]. lia.
+  - rewrite Hrows2. eapply subseq_trans; [|apply subseq_ins_all]. apply subseq_filter_mono. apply subseq_ensure.
 Qed.
